@@ -48,6 +48,23 @@ variant that only serves to state the decidable input class `SegmentAligned`.
   `"/"` static segment (`C14_aligned_without_slash_segments_opt`), and `C14_failure_in_known_class`: on a well-formed
   table every failing request path has `anyOptWithChildren ∨ anyMultiOpt ∨ anyInnerOptTuple ∨ (a "/" segment ∧
   ¬SegmentAligned)` — exactly the predicates `classify` files failures under (`C14_classify_sound`).
+* **stage 2 — the final form** `C14_match_iff_flat_optional`: for every well-formed table and request path with
+  `anyOptParent d.tops = false`, `anyMultiOpt d.tops = false`, `anyInnerOptTuple d.tops = false` and `SegmentAligned d path`
+  — the four predicates `classify` uses, `anyOptParent` now in its exact form (an optional param NEXT TO A MANDATORY
+  SEGMENT in a route with children; a parent that IS one optional param, `/:lang?` → …, is covered) — `Holds`.
+  `C14_match_iff_flat_optional_no_slash` (no `SegmentAligned` needed without `"/"` segments) and
+  `C14_failure_in_class` (every failure on a well-formed table lies in one of the four classes).  Route: `Route.ro`
+  (the registered routes in the order the router tries them), `nested_aligned2` (incl. the optional-parent fallback),
+  `ro_mem` (same routes as the table), `judge_of_table2` (the oracle does not depend on the order within a definition).
+* **stage 3** `C14_match_iff_flat_optional_blocks`: as stage 2, and a leaf route may carry ANY number of optional params
+  forming one block of direct fields; the class `optional-backoff-order` shrinks to `anySplitOpt` (optionals of a leaf
+  separated by a mandatory segment, or ≥ 2 optionals in a route with children) — this is the predicate `classify` uses.
+  Route: `block_test`, `soft_vs_strict`, `no_leftover_general`, `block_eq_prefix` (the back-off = the first accepting
+  PREFIX expansion), `prefix_mem_expand` / `expand_shape` / `gmatch_shape` (every registered expansion of a block has the
+  shape of a prefix expansion), `nested_aligned3`, `ro3_sub` / `ro3_shape`, `judge_of_table3`.
+* stage 3 (first part) — `tuple_opt_block`: the tuple loop over `LA ++ OB ++ LB` with a block `OB` of optional
+  fields is `blockRP`: the back-off includes the first `inc` optionals for `inc = m, m-1, …, 0`, i.e. only PREFIXES of
+  the block are ever tried — the exact mechanism behind F-C14-6, in every version of the code.
 * `C14_build_then_match_nested` (nested routes of any depth, one child per level, every version of the code,
   via `seq_build` / `build_nested`) and `C14_build_then_match_table` (whole tables with siblings and base: the
   built path is matched by that definition or an earlier accepting one).
@@ -5953,12 +5970,2825 @@ predicates whose negations are the hypotheses of `C14_match_iff_flat_optional_le
 theorem C14_classify_sound (d : Defs) (path : Path) (k : Kind) :
     (classify d path k = .slashParent → noSlashSegList d.tops = false ∧ ¬ SegmentAligned d path) ∧
     (classify d path k = .optionalParent → anyOptParent d.tops = true) ∧
-    (classify d path k = .optionalBackoffOrder → anyMultiOpt d.tops = true) ∧
+    (classify d path k = .optionalBackoffOrder → anySplitOpt d.tops = true) ∧
     (classify d path k = .nestedOptionalTuple → anyInnerOptTuple d.tops = true) := by
   by_cases ha : SegmentAligned d path <;>
   cases hs : noSlashSegList d.tops <;> cases hp : anyOptParent d.tops <;>
-  cases hm : anyMultiOpt d.tops <;> cases hi : anyInnerOptTuple d.tops <;>
+  cases hm : anySplitOpt d.tops <;> cases hi : anyInnerOptTuple d.tops <;>
   cases k <;> simp [classify, ha, hs, hp, hm, hi]
+
+
+
+/-! # stage 2: a parent that consists of one optional param -/
+
+/-! ## the table level again, with the router's order `E` and the table's order `E'` of one definition's routes -/
+
+theorem anyStrict_mem (Gs : List (List FSeg)) (path : Path) :
+    anyStrict Gs path = true ↔ ∃ G ∈ Gs, (flatMatchStrict G path).isSome = true := by
+  simp [anyStrict, List.any_eq_true]
+
+theorem anyStrict_congr (Gs Hs : List (List FSeg)) (path : Path) (h : ∀ G, G ∈ Gs ↔ G ∈ Hs) :
+    anyStrict Gs path = anyStrict Hs path := by
+  cases h1 : anyStrict Gs path with
+  | true =>
+    obtain ⟨G, hG, hs⟩ := (anyStrict_mem Gs path).1 h1
+    exact ((anyStrict_mem Hs path).2 ⟨G, (h G).1 hG, hs⟩).symm
+  | false =>
+    cases h2 : anyStrict Hs path with
+    | false => rfl
+    | true =>
+      obtain ⟨G, hG, hs⟩ := (anyStrict_mem Hs path).1 h2
+      have := (anyStrict_mem Gs path).2 ⟨G, (h G).2 hG, hs⟩
+      rw [h1] at this; simp at this
+
+theorem lenientParams_mem (Gs : List (List FSeg)) (path : Path) (q : Params) :
+    q ∈ lenientParams Gs path ↔ ∃ G ∈ Gs, flatMatchStrict G path = some q ∨ flatMatchTrim G path = some q := by
+  simp only [lenientParams, List.mem_flatMap, List.mem_append, Option.mem_toList]
+
+theorem mem_map_congr {α β : Type} (f : α → β) (A B : List α) (h : ∀ x, x ∈ A ↔ x ∈ B) :
+    ∀ y, y ∈ A.map f ↔ y ∈ B.map f := by
+  intro y
+  simp only [List.mem_map]
+  constructor
+  · rintro ⟨x, hx, rfl⟩; exact ⟨x, (h x).1 hx, rfl⟩
+  · rintro ⟨x, hx, rfl⟩; exact ⟨x, (h x).2 hx, rfl⟩
+
+theorem firstStrict_map_congr (f g : Route → List (List FSeg)) (path : Path) :
+    ∀ (tops : List Route) (i : Nat), (∀ t ∈ tops, anyStrict (f t) path = anyStrict (g t) path) →
+      firstStrict (tops.map f) path i = firstStrict (tops.map g) path i := by
+  intro tops
+  induction tops with
+  | nil => intro i _; rfl
+  | cons c cs ih =>
+    intro i h
+    simp only [List.map_cons, firstStrict, h c (by simp), ih (i + 1) (fun t ht => h t (by simp [ht]))]
+
+/-- like `table_first_gen`, returning the definition itself -/
+theorem table_first2 (E : Route → List (List FSeg)) (b : Option Path) (hb : baseOk b = true) (t' : Path) :
+    ∀ (tops : List Route) (i0 i : Nat) (ps : Params),
+      (∀ t ∈ tops, ∀ X ∈ prefixAll (normBase b) (E t), FlatOk X) →
+      firstDefT (tops.map fun t => prefixAll (normBase b) (E t)) i0 ('/' :: t') = some (i, ps) →
+      i0 ≤ i ∧
+      (∃ t : Route, tops[i - i0]? = some t ∧ ps ∈ lenientParams ((E t).map (withBase b)) ('/' :: t')) ∧
+      (∀ j, firstStrict (tops.map fun t => (E t).map (withBase b)) ('/' :: t') i0 = some j → ¬ j < i) := by
+  intro tops
+  induction tops with
+  | nil => intro i0 i ps _ h; simp [firstDefT] at h
+  | cons c cs ih =>
+    intro i0 i ps hok h
+    simp only [List.map_cons, firstDefT] at h
+    cases hg : firstG (prefixAll (normBase b) (E c)) ('/' :: t') with
+    | some q =>
+      rw [hg] at h; simp at h
+      obtain ⟨rfl, rfl⟩ := h
+      refine ⟨Nat.le_refl _, ⟨c, by simp, ?_⟩, ?_⟩
+      · rw [lenientParams_base b hb]
+        exact firstG_imp_lenient _ (hok c (by simp)) t' q hg
+      · intro j hj
+        have := firstStrict_ge _ _ _ _ hj
+        omega
+    | none =>
+      rw [hg] at h; simp only at h
+      obtain ⟨h1, ⟨t, h2, h3⟩, h4⟩ := ih (i0 + 1) i ps (fun t ht => hok t (by simp [ht])) h
+      refine ⟨by omega, ⟨t, ?_, h3⟩, ?_⟩
+      · have : i - i0 = (i - (i0 + 1)) + 1 := by omega
+        rw [this]
+        simpa using h2
+      · intro j hj
+        simp only [List.map_cons, firstStrict] at hj
+        have hns : anyStrict ((E c).map (withBase b)) ('/' :: t') = false := by
+          rw [anyStrict_base b hb]
+          cases hs : anyStrict (prefixAll (normBase b) (E c)) ('/' :: t') with
+          | false => rfl
+          | true =>
+            obtain ⟨q, hq⟩ := anyStrict_imp_firstG _ (hok c (by simp)) _ hs
+            rw [hg] at hq; simp at hq
+        rw [hns] at hj
+        simp only [Bool.false_eq_true, if_false] at hj
+        exact h4 j hj
+
+/-- the oracle accepts an outcome that is "the first definition one of whose routes `E t` (in the router's
+order) accepts", when the table registers the same routes `E' t` (in any order) -/
+theorem judge_of_table2 (E E' : Route → List (List FSeg)) (d : Defs) (hb : baseOk d.base = true) (t' : Path)
+    (hmem : ∀ t ∈ d.tops, ∀ G, G ∈ E t ↔ G ∈ E' t)
+    (hok : ∀ t ∈ d.tops, ∀ X ∈ prefixAll (normBase d.base) (E t), FlatOk X)
+    (hper : expandedPerDef d = d.tops.map fun t => (E' t).map (withBase d.base))
+    (got : Out NMatch)
+    (hr : mres got =
+      match firstDefT (d.tops.map fun t => prefixAll (normBase d.base) (E t)) 0 ('/' :: t') with
+      | some (i, ps) => .some (some i, ps)
+      | none => .none) :
+    judge d ('/' :: t') got = none := by
+  have hany : ∀ t ∈ d.tops, anyStrict ((E t).map (withBase d.base)) ('/' :: t') =
+      anyStrict ((E' t).map (withBase d.base)) ('/' :: t') := fun t ht =>
+    anyStrict_congr _ _ _ (mem_map_congr _ _ _ (hmem t ht))
+  have hfsc := firstStrict_map_congr (fun t => (E t).map (withBase d.base))
+    (fun t => (E' t).map (withBase d.base)) ('/' :: t') d.tops 0 hany
+  unfold judge
+  rw [hper]
+  simp only []
+  rw [← hfsc]
+  cases hfd : firstDefT (d.tops.map fun t => prefixAll (normBase d.base) (E t)) 0 ('/' :: t') with
+  | none =>
+    rw [hfd] at hr
+    have hfs := table_none_gen E d.base hb ('/' :: t') d.tops 0 hok hfd
+    cases got with
+    | panic => simp [mres] at hr
+    | some m => simp [mres] at hr
+    | none => simp [hfs]
+  | some x =>
+    obtain ⟨i, ps⟩ := x
+    rw [hfd] at hr
+    obtain ⟨_, ⟨t, ht1, ht2⟩, hfirst⟩ := table_first2 E d.base hb t' d.tops 0 i ps hok hfd
+    cases got with
+    | panic => simp [mres] at hr
+    | none => simp [mres] at hr
+    | some m =>
+      simp only [mres, Out.some.injEq, Prod.mk.injEq] at hr
+      obtain ⟨hhead, hparams⟩ := hr
+      cases hch : m.chain with
+      | nil => rw [hch] at hhead; simp at hhead
+      | cons e rest =>
+        obtain ⟨i', x⟩ := e
+        rw [hch] at hhead
+        simp at hhead
+        subst hhead
+        simp only [Nat.sub_zero] at ht1
+        have htmem : t ∈ d.tops := List.mem_of_getElem? ht1
+        have ht1' : Option.map (fun t : Route => (E' t).map (withBase d.base)) d.tops[i']? =
+            some ((E' t).map (withBase d.base)) := by simp [ht1]
+        have hmem2 : m.params ∈ lenientParams ((E' t).map (withBase d.base)) ('/' :: t') := by
+          rw [hparams]
+          obtain ⟨G, hG, hq⟩ := (lenientParams_mem _ _ _).1 ht2
+          exact (lenientParams_mem _ _ _).2 ⟨G, (mem_map_congr _ _ _ (hmem t htmem) G).1 hG, hq⟩
+        have hne' : lenientParams ((E' t).map (withBase d.base)) ('/' :: t') ≠ [] := by
+          intro hl; rw [hl] at hmem2; simp at hmem2
+        cases hsf : firstStrict (d.tops.map fun t => (E t).map (withBase d.base)) ('/' :: t') 0 with
+        | none => simp [hch, ht1', hne', hmem2, hsf]
+        | some j =>
+          have := hfirst j hsf
+          simp [hch, ht1', hne', hmem2, hsf, this]
+
+
+
+mutual
+/-- the registered routes of a subtree in the order the router tries them: below a parent that is one
+optional param, first all children with the param taken, then all children without it -/
+def Route.ro : Route → List (List FSeg)
+  | .mk segs children =>
+    if children.isEmpty then expandSpec segs.gen
+    else
+      match segs.gen with
+      | [.opt n] => prefixAll [.param n] (roList children) ++ roList children
+      | g => prefixAll g (roList children)
+def roList : List Route → List (List FSeg)
+  | [] => []
+  | c :: cs => c.ro ++ roList cs
+end
+
+def isPureOpt : List FSeg → Bool
+  | [.opt _] => true
+  | _ => false
+
+mutual
+/-- the hypotheses of stage 2 on a route: as stage 1, but a route with children may also consist of one
+optional param -/
+def Route.stage2 : Route → Bool
+  | .mk segs children =>
+    segs.gen.all (fun f => decide (WfAO f)) && !segs.innerOptTuple && decide (countOptF segs.gen ≤ 1) &&
+    (if children.isEmpty then splatLast segs.gen
+     else ((!segs.optional && noSplat segs.gen) || isPureOpt segs.gen)) && stage2List children
+def stage2List : List Route → Bool
+  | [] => true
+  | c :: cs => c.stage2 && stage2List cs
+end
+
+def firstDef2 : List Route → Nat → Path → Option (Nat × Params)
+  | [], _, _ => none
+  | c :: cs, i, path =>
+    match firstG c.ro path with
+    | some ps => some (i, ps)
+    | none => firstDef2 cs (i + 1) path
+
+theorem firstG_roList (cs : List Route) (i : Nat) (path : Path) :
+    firstG (roList cs) path = (firstDef2 cs i path).map (·.2) := by
+  induction cs generalizing i with
+  | nil => rfl
+  | cons c cs ih =>
+    simp only [roList, firstG_append, firstDef2]
+    cases firstG c.ro path with
+    | some ps => rfl
+    | none => exact ih (i + 1)
+
+theorem firstG_unaligned (Gs : List (List FSeg)) (r : Path) (h1 : r ≠ []) (h2 : startsSlash r = false) :
+    firstG Gs r = none := by
+  induction Gs with
+  | nil => rfl
+  | cons G Gs ih => simp [firstG, gmatch_unaligned G r h1 h2, ih]
+
+theorem optSeqSpec_single (n : List Char) (path : Path) :
+    optSeqSpec [.opt n] path = optSpec n path := by
+  simp only [optSeqSpec, seqSpec]
+  cases optSpec n path with
+  | none => rfl
+  | some x => obtain ⟨r, ps⟩ := x; simp
+
+/-- an optional and the param it expands to, on the same path -/
+theorem optSpec_param (n : List Char) (path r2 : Path) (po : Params) (h : optSpec n path = some (r2, po)) :
+    (po = [] ∧ r2 = path ∧ atomSpec (.param n) path = none) ∨
+    (po ≠ [] ∧ atomSpec (.param n) path = some (r2, po)) := by
+  cases path with
+  | nil => simp [optSpec] at h; left; exact ⟨h.2, h.1, rfl⟩
+  | cons c t =>
+    simp only [optSpec] at h
+    split at h
+    · next hc =>
+      subst hc
+      split at h
+      · next he => simp at h; left; exact ⟨h.2, h.1.symm, by simp [atomSpec, he]⟩
+      · next he => simp at h; right; refine ⟨by rw [← h.2]; simp, ?_⟩; simp [atomSpec, he, h.1, h.2]
+    · simp at h
+
+theorem optional_of_gen_opt (s : Seg) (n : List Char) (h : s.gen = [.opt n]) : s.optional = true := by
+  cases ho : s.optional with
+  | true => rfl
+  | false =>
+    have := gen_noOpt s ho (.opt n) (by simp [h])
+    simp [FSeg.isOpt] at this
+
+mutual
+theorem nested_aligned2 : ∀ (r : Route), r.stage2 = true → ∀ (pos : Nat) (path : Path),
+    nres (matchNested .aligned r pos path) =
+      match firstG r.ro path with
+      | some ps => .some (some pos, ps)
+      | none => .none
+  | .mk segs children, hg, pos, path => by
+    simp only [Route.stage2, Bool.and_eq_true, Bool.not_eq_true', List.all_eq_true, decide_eq_true_eq] at hg
+    obtain ⟨⟨⟨⟨hwf, hin⟩, hcnt⟩, hkind⟩, hch⟩ := hg
+    by_cases hce : children.isEmpty = true
+    · -- a leaf, possibly with one optional
+      simp only [hce, if_true] at hkind
+      have hrp := one_opt_test .aligned segs path hin hcnt
+      rw [optSeq_aligned segs.gen hwf hcnt path] at hrp
+      have hgm := gmatchO_eq_expansions segs.gen hwf hcnt hkind path
+      simp only [matchNested, Route.ro, hce, if_true]
+      rw [← hgm]
+      unfold gmatchO
+      cases hT : segs.test .aligned path with
+      | panic => rw [hT] at hrp; cases hsp : optSeqSpec segs.gen path <;> simp [hsp, Out.rp, ofOpt] at hrp
+      | none =>
+        rw [hT] at hrp
+        cases hsp : optSeqSpec segs.gen path with
+        | some x => simp [hsp, Out.rp, ofOpt] at hrp
+        | none => simp [nres]
+      | some pm =>
+        rw [hT] at hrp
+        cases hsp : optSeqSpec segs.gen path with
+        | none => simp [hsp, Out.rp, ofOpt] at hrp
+        | some x =>
+          obtain ⟨r, ps⟩ := x
+          simp [hsp, Out.rp, ofOpt] at hrp
+          simp only
+          unfold finish
+          rw [hrp.1, hrp.2]
+          by_cases hcomp : complete r = true <;> simp [hcomp, nres]
+    · simp only [hce, Bool.false_eq_true, if_false, Bool.or_eq_true, Bool.and_eq_true, Bool.not_eq_true'] at hkind
+      by_cases hpure : isPureOpt segs.gen = true
+      · -- a parent that is one optional param
+        obtain ⟨n, hgen⟩ : ∃ n, segs.gen = [.opt n] := by
+          cases hgg : segs.gen with
+          | nil => simp [hgg, isPureOpt] at hpure
+          | cons f F =>
+            cases f <;> cases F <;> simp [hgg, isPureOpt] at hpure
+            exact ⟨_, rfl⟩
+        have hopt := optional_of_gen_opt segs n hgen
+        have hrp : ∀ p, (segs.test .aligned p).rp = ofOpt (optSpec n p) := by
+          intro p
+          rw [one_opt_test .aligned segs p hin hcnt, optSeq_aligned segs.gen hwf hcnt p, hgen, optSeqSpec_single]
+        have ihc := children_aligned2 children hch 0
+        simp only [matchNested, Route.ro, hce, Bool.false_eq_true, if_false, hgen, firstG_append, firstG_prefix,
+          seqSpec, firstG_roList children 0, hopt, if_true, Ver.fixed]
+        have hnil := hrp []
+        cases hT0 : segs.test .aligned [] with
+        | panic => rw [hT0] at hnil; simp [optSpec, Out.rp, ofOpt] at hnil
+        | none => rw [hT0] at hnil; simp [optSpec, Out.rp, ofOpt] at hnil
+        | some np =>
+          rw [hT0] at hnil
+          simp [optSpec, Out.rp, ofOpt] at hnil
+          have hpath := hrp path
+          cases hT : segs.test .aligned path with
+          | panic => rw [hT] at hpath; cases hsp : optSpec n path <;> simp [hsp, Out.rp, ofOpt] at hpath
+          | none =>
+            rw [hT] at hpath
+            cases hsp : optSpec n path with
+            | some x => simp [hsp, Out.rp, ofOpt] at hpath
+            | none =>
+              -- only on a path that does not start a segment
+              cases path with
+              | nil => simp [optSpec] at hsp
+              | cons c t =>
+                have hc : c ≠ '/' := by
+                  intro e; subst e; simp only [optSpec, if_true] at hsp; split at hsp <;> simp at hsp
+                have hu := firstG_unaligned (roList children) (c :: t) (by simp) (by simp [startsSlash, hc])
+                rw [firstG_roList children 0] at hu
+                simp [atomSpec, hc, hu, nres]
+          | some pm =>
+            rw [hT] at hpath
+            cases hsp : optSpec n path with
+            | none => simp [hsp, Out.rp, ofOpt] at hpath
+            | some x =>
+              obtain ⟨r2, po⟩ := x
+              simp [hsp, Out.rp, ofOpt] at hpath
+              obtain ⟨hr2, hpo⟩ := hpath
+              simp only
+              have ih2 := ihc pm.remaining
+              have ihp := ihc path
+              rw [hr2] at ih2 ⊢
+              have hshape := optSpec_param n path r2 po hsp
+              cases hA : firstDef2 children 0 r2 with
+              | some y =>
+                obtain ⟨j, q⟩ := y
+                rw [hA] at ih2
+                cases hm2 : matchChildren .aligned children 0 r2 with
+                | panic => rw [hm2] at ih2; simp [nres] at ih2
+                | none => rw [hm2] at ih2; simp [nres] at ih2
+                | some inner rem =>
+                  rw [hm2] at ih2
+                  have hcomp := children_rem_complete .aligned children 0 r2 inner rem hm2
+                  simp [nres] at ih2
+                  simp only
+                  rw [finish_nres _ _ _ _ _ hcomp]
+                  rcases hshape with ⟨h1, h2, h3⟩ | ⟨h1, h3⟩
+                  · subst h2; simp [h3, hA, hpo, h1, ih2.2]
+                  · simp [h3, hA, hpo, ih2.2]
+              | none =>
+                rw [hA] at ih2
+                cases hm2 : matchChildren .aligned children 0 r2 with
+                | panic => rw [hm2] at ih2; simp [nres] at ih2
+                | some inner rem => rw [hm2] at ih2; simp [nres] at ih2
+                | none =>
+                  simp only
+                  cases hB : firstDef2 children 0 path with
+                  | none =>
+                    rw [hB] at ihp
+                    cases hmp : matchChildren .aligned children 0 path with
+                    | panic => rw [hmp] at ihp; simp [nres] at ihp
+                    | some inner rem => rw [hmp] at ihp; simp [nres] at ihp
+                    | none =>
+                      rcases hshape with ⟨h1, h2, h3⟩ | ⟨h1, h3⟩
+                      · simp [h3, nres]
+                      · simp [h3, hA, nres]
+                  | some y =>
+                    obtain ⟨j, q⟩ := y
+                    rw [hB] at ihp
+                    cases hmp : matchChildren .aligned children 0 path with
+                    | panic => rw [hmp] at ihp; simp [nres] at ihp
+                    | none => rw [hmp] at ihp; simp [nres] at ihp
+                    | some inner rem =>
+                      rw [hmp] at ihp
+                      have hcomp := children_rem_complete .aligned children 0 path inner rem hmp
+                      simp [nres] at ihp
+                      simp only
+                      rw [finish_nres _ _ _ _ _ hcomp]
+                      rcases hshape with ⟨h1, h2, h3⟩ | ⟨h1, h3⟩
+                      · simp [h3, hnil.2, ihp.2]
+                      · simp [h3, hA, hnil.2, ihp.2]
+      · -- a route with children and no optional of its own
+        have hnp : isPureOpt segs.gen = false := by simpa using hpure
+        have hkind' : segs.optional = false ∧ noSplat segs.gen = true := by
+          rcases hkind with h | h
+          · exact h
+          · rw [h] at hnp; simp at hnp
+        obtain ⟨hopt, hnsp⟩ := hkind'
+        have hwfa : ∀ f ∈ segs.gen, WfA f := fun f hf => wfa_of_wfao (hwf f hf) (gen_noOpt segs hopt f hf)
+        have hflat := flatten_test .aligned segs path hopt
+        have hseq := seq_aligned segs.gen hwfa path
+        have hro : (Route.mk segs children).ro = prefixAll segs.gen (roList children) := by
+          simp only [Route.ro, hce, Bool.false_eq_true, if_false]
+          cases hgg : segs.gen with
+          | nil => rfl
+          | cons f F =>
+            cases f with
+            | opt n =>
+              have := gen_noOpt segs hopt (.opt n) (by simp [hgg])
+              simp [FSeg.isOpt] at this
+            | st s => rfl
+            | param s => rfl
+            | splat s => rfl
+        rw [hro]
+        simp only [matchNested, hflat, hce, Bool.false_eq_true, if_false, firstG_prefix,
+          firstG_roList children 0]
+        cases hT : seqTest .aligned segs.gen path with
+        | panic => rw [hT] at hseq; cases hsp : seqSpec segs.gen path <;> simp [hsp, Out.rp, ofOpt] at hseq
+        | none =>
+          rw [hT] at hseq
+          cases hsp : seqSpec segs.gen path with
+          | some x => simp [hsp, Out.rp, ofOpt] at hseq
+          | none => simp [nres]
+        | some pm =>
+          rw [hT] at hseq
+          cases hsp : seqSpec segs.gen path with
+          | none => simp [hsp, Out.rp, ofOpt] at hseq
+          | some x =>
+            obtain ⟨r, ps⟩ := x
+            simp [hsp, Out.rp, ofOpt] at hseq
+            obtain ⟨hr, hps⟩ := hseq
+            simp only
+            have ihc := children_aligned2 children hch 0 pm.remaining
+            rw [hr] at ihc ⊢
+            cases hmc : matchChildren .aligned children 0 r with
+            | panic => rw [hmc] at ihc; cases hfd : firstDef2 children 0 r <;> simp [hfd, nres] at ihc
+            | none =>
+              rw [hmc] at ihc
+              cases hfd : firstDef2 children 0 r with
+              | some y => simp [hfd, nres] at ihc
+              | none => simp [hopt, nres]
+            | some inner rem =>
+              rw [hmc] at ihc
+              have hcomp := children_rem_complete .aligned children 0 r inner rem hmc
+              cases hfd : firstDef2 children 0 r with
+              | none => simp [hfd, nres] at ihc
+              | some y =>
+                obtain ⟨j, ps'⟩ := y
+                simp [hfd, nres] at ihc
+                simp only
+                rw [finish_nres _ _ _ _ _ hcomp]
+                simp [hps, ihc.2]
+theorem children_aligned2 : ∀ (cs : List Route), stage2List cs = true → ∀ (i : Nat) (path : Path),
+    nres (matchChildren .aligned cs i path) =
+      match firstDef2 cs i path with
+      | some (j, ps) => .some (some j, ps)
+      | none => .none
+  | [], _, i, path => by simp [matchChildren, firstDef2, nres]
+  | c :: cs, hg, i, path => by
+    simp only [stage2List, Bool.and_eq_true] at hg
+    have ih := nested_aligned2 c hg.1 i path
+    simp only [matchChildren, firstDef2]
+    cases hm : matchNested .aligned c i path with
+    | panic => rw [hm] at ih; cases hf : firstG c.ro path <;> simp [hf, nres] at ih
+    | some m rem =>
+      rw [hm] at ih
+      cases hf : firstG c.ro path with
+      | none => simp [hf, nres] at ih
+      | some ps => simp [hf, nres] at ih; simp [nres, ih]
+    | none =>
+      rw [hm] at ih
+      cases hf : firstG c.ro path with
+      | some ps => simp [hf, nres] at ih
+      | none => simp only; exact children_aligned2 cs hg.2 (i + 1) path
+end
+
+
+
+theorem mem_prefixAll_iff (a : List FSeg) (Xs : List (List FSeg)) (G : List FSeg) :
+    G ∈ prefixAll a Xs ↔ ∃ G' ∈ Xs, G = a ++ G' := by
+  constructor
+  · exact mem_prefixAll a Xs G
+  · rintro ⟨G', hG', rfl⟩; exact mem_prefixAll_of_mem a Xs G' hG'
+
+theorem expandSpec_opt_cons (n : List Char) (F : List FSeg) :
+    expandSpec (.opt n :: F) = (expandSpec F).map (.param n :: ·) ++ expandSpec F := rfl
+
+mutual
+/-- the router's order and the table's order list the same routes -/
+theorem ro_mem : ∀ (r : Route), r.stage2 = true → ∀ G, G ∈ r.ro ↔ G ∈ regRoutes r
+  | .mk segs children, hg, G => by
+    simp only [Route.stage2, Bool.and_eq_true, Bool.not_eq_true', List.all_eq_true, decide_eq_true_eq] at hg
+    obtain ⟨⟨⟨⟨hwf, hin⟩, hcnt⟩, hkind⟩, hch⟩ := hg
+    have ihl := roList_mem children hch
+    by_cases hce : children.isEmpty = true
+    · simp [Route.ro, regRoutes, Route.gen, hce]
+    · simp only [hce, Bool.false_eq_true, if_false, Bool.or_eq_true, Bool.and_eq_true, Bool.not_eq_true'] at hkind
+      by_cases hpure : isPureOpt segs.gen = true
+      · obtain ⟨n, hgen⟩ : ∃ n, segs.gen = [.opt n] := by
+          cases hgg : segs.gen with
+          | nil => simp [hgg, isPureOpt] at hpure
+          | cons f F =>
+            cases f <;> cases F <;> simp [hgg, isPureOpt] at hpure
+            exact ⟨_, rfl⟩
+        simp only [Route.ro, regRoutes, Route.gen, hce, Bool.false_eq_true, if_false, hgen, List.mem_append,
+          mem_prefixAll_iff, List.mem_flatMap]
+        constructor
+        · rintro (⟨G', hG', rfl⟩ | hG)
+          · obtain ⟨F, hF, hGF⟩ := List.mem_flatMap.1 ((ihl G').1 hG')
+            exact ⟨[.opt n] ++ F, ⟨F, hF, rfl⟩, by simp [expandSpec_opt_cons]; left; exact hGF⟩
+          · obtain ⟨F, hF, hGF⟩ := List.mem_flatMap.1 ((ihl G).1 hG)
+            exact ⟨[.opt n] ++ F, ⟨F, hF, rfl⟩, by simp [expandSpec_opt_cons]; right; exact hGF⟩
+        · rintro ⟨X, ⟨F, hF, rfl⟩, hGX⟩
+          simp [expandSpec_opt_cons] at hGX
+          rcases hGX with ⟨G', hG', rfl⟩ | hGX
+          · left; exact ⟨G', (ihl G').2 (List.mem_flatMap.2 ⟨F, hF, hG'⟩), rfl⟩
+          · right; exact (ihl G).2 (List.mem_flatMap.2 ⟨F, hF, hGX⟩)
+      · have hnp : isPureOpt segs.gen = false := by simpa using hpure
+        have hkind' : segs.optional = false ∧ noSplat segs.gen = true := by
+          rcases hkind with h | h
+          · exact h
+          · rw [h] at hnp; simp at hnp
+        obtain ⟨hopt, _⟩ := hkind'
+        have hro : (Route.mk segs children).ro = prefixAll segs.gen (roList children) := by
+          simp only [Route.ro, hce, Bool.false_eq_true, if_false]
+          cases hgg : segs.gen with
+          | nil => rfl
+          | cons f F =>
+            cases f with
+            | opt n =>
+              have := gen_noOpt segs hopt (.opt n) (by simp [hgg])
+              simp [FSeg.isOpt] at this
+            | st s => rfl
+            | param s => rfl
+            | splat s => rfl
+        rw [hro]
+        simp only [regRoutes, Route.gen, hce, Bool.false_eq_true, if_false,
+          flatMap_prefixAll segs.gen (countOptF_of_noopt segs hopt), mem_prefixAll_iff]
+        constructor
+        · rintro ⟨G', hG', rfl⟩; exact ⟨G', (ihl G').1 hG', rfl⟩
+        · rintro ⟨G', hG', rfl⟩; exact ⟨G', (ihl G').2 hG', rfl⟩
+theorem roList_mem : ∀ (cs : List Route), stage2List cs = true →
+    ∀ G, G ∈ roList cs ↔ G ∈ (genList cs).flatMap expandSpec
+  | [], _, G => by simp [roList, genList]
+  | c :: cs, hg, G => by
+    simp only [stage2List, Bool.and_eq_true] at hg
+    simp only [roList, genList, List.flatMap_append, List.mem_append, ro_mem c hg.1 G, regRoutes,
+      roList_mem cs hg.2 G]
+end
+
+mutual
+theorem flats_wfao2 : ∀ (r : Route), r.stage2 = true → ∀ F ∈ r.gen, (∀ f ∈ F, WfAO f) ∧ splatLast F = true
+  | .mk segs children, hg, F, hF => by
+    simp only [Route.stage2, Bool.and_eq_true, Bool.not_eq_true', List.all_eq_true, decide_eq_true_eq] at hg
+    obtain ⟨⟨⟨⟨hwf, _⟩, _⟩, hkind⟩, hch⟩ := hg
+    simp only [Route.gen] at hF
+    by_cases hce : children.isEmpty = true
+    · simp only [hce, if_true, List.mem_singleton] at hF hkind
+      subst hF
+      exact ⟨hwf, hkind⟩
+    · simp only [hce, Bool.false_eq_true, if_false, Bool.or_eq_true, Bool.and_eq_true, Bool.not_eq_true'] at hF hkind
+      obtain ⟨G, hG, rfl⟩ := mem_prefixAll _ _ _ hF
+      have hGok := flatsList_wfao2 children hch G hG
+      have hns : noSplat segs.gen = true := by
+        rcases hkind with h | h
+        · exact h.2
+        · cases hgg : segs.gen with
+          | nil => rfl
+          | cons f F =>
+            cases f <;> cases F <;> simp [hgg, isPureOpt] at h
+            rfl
+      refine ⟨?_, splatLast_append _ _ hns hGok.2⟩
+      intro f hf
+      simp only [List.mem_append] at hf
+      rcases hf with hf | hf
+      · exact hwf f hf
+      · exact hGok.1 f hf
+theorem flatsList_wfao2 : ∀ (cs : List Route), stage2List cs = true →
+    ∀ F ∈ genList cs, (∀ f ∈ F, WfAO f) ∧ splatLast F = true
+  | [], _, F, hF => by simp [genList] at hF
+  | c :: cs, hg, F, hF => by
+    simp only [stage2List, Bool.and_eq_true] at hg
+    simp only [genList, List.mem_append] at hF
+    rcases hF with hF | hF
+    · exact flats_wfao2 c hg.1 F hF
+    · exact flatsList_wfao2 cs hg.2 F hF
+end
+
+theorem stage2List_mem : ∀ (cs : List Route) (t : Route), stage2List cs = true → t ∈ cs → t.stage2 = true := by
+  intro cs
+  induction cs with
+  | nil => intro t _ h; simp at h
+  | cons c cs ih =>
+    intro t hg h
+    simp only [stage2List, Bool.and_eq_true] at hg
+    simp only [List.mem_cons] at h
+    rcases h with rfl | h
+    · exact hg.1
+    · exact ih t hg.2 h
+
+theorem ro_ok (b : Option Path) (hb : baseOk b = true) (t : Route) (ht : t.stage2 = true) :
+    ∀ X ∈ prefixAll (normBase b) t.ro, FlatOk X := by
+  intro X hX
+  obtain ⟨G, hG, rfl⟩ := mem_prefixAll _ _ _ hX
+  have hG' := (ro_mem t ht G).1 hG
+  simp only [regRoutes, List.mem_flatMap] at hG'
+  obtain ⟨F, hF, hGF⟩ := hG'
+  have hFok := flats_wfao2 t ht F hF
+  have hGok := expand_flatok F hFok.1 hFok.2 G hGF
+  refine ⟨?_, splatLast_append _ _ (normBase_noSplat b) hGok.2⟩
+  intro f hf
+  simp only [List.mem_append] at hf
+  rcases hf with hf | hf
+  · exact normBase_ok b hb f hf
+  · exact hGok.1 f hf
+
+theorem all_opt_single (F : List FSeg) (hall : F.any FSeg.mandatory = false) (hc : countOptF F ≤ 1)
+    (hne : 1 ≤ countOptF F) : isPureOpt F = true := by
+  cases F with
+  | nil => simp [countOptF] at hne
+  | cons f F =>
+    simp only [List.any_cons, Bool.or_eq_false_iff] at hall
+    cases f with
+    | opt n =>
+      cases F with
+      | nil => rfl
+      | cons g G =>
+        simp only [List.any_cons, Bool.or_eq_false_iff] at hall
+        cases g with
+        | opt m => simp [countOptF, FSeg.isOpt] at hc; omega
+        | st s => simp [FSeg.mandatory] at hall
+        | param s => simp [FSeg.mandatory] at hall
+        | splat s => simp [FSeg.mandatory] at hall
+    | st s => simp [FSeg.mandatory] at hall
+    | param s => simp [FSeg.mandatory] at hall
+    | splat s => simp [FSeg.mandatory] at hall
+
+-- the hypotheses of stage 2, as the negations of the known-finding class predicates
+mutual
+theorem stage2_of_classes : ∀ (r : Route), r.wf = true → r.hasOptParent = false → r.hasMultiOpt = false →
+    r.hasInnerOptTuple = false → r.stage2 = true
+  | .mk segs children, hw, h1, h2, h3 => by
+    simp only [Route.wf, Bool.and_eq_true, List.all_eq_true, decide_eq_true_eq] at hw
+    simp only [Route.hasOptParent, Bool.or_eq_false_iff, Bool.and_eq_false_iff, Bool.not_eq_false'] at h1
+    simp only [Route.hasMultiOpt, Bool.or_eq_false_iff, decide_eq_false_iff_not] at h2
+    simp only [Route.hasInnerOptTuple, Bool.or_eq_false_iff] at h3
+    simp only [Route.stage2, Bool.and_eq_true, Bool.not_eq_true', List.all_eq_true, decide_eq_true_eq]
+    have hcnt : countOptF segs.gen ≤ 1 := by omega
+    refine ⟨⟨⟨⟨hw.1.1, h3.1⟩, hcnt⟩, ?_⟩, stage2List_of_classes children hw.2 h1.2 h2.2 h3.2⟩
+    by_cases hce : children.isEmpty = true
+    · simpa [hce] using hw.1.2
+    · simp only [hce, Bool.false_eq_true, if_false, Bool.or_eq_true, Bool.and_eq_true, Bool.not_eq_true']
+      have hns : noSplat segs.gen = true := by simpa [hce] using hw.1.2
+      cases hopt : segs.optional with
+      | false => left; exact ⟨rfl, hns⟩
+      | true =>
+        right
+        have hall : segs.gen.any FSeg.mandatory = false := by
+          rcases h1.1 with (h | h) | h
+          · exact absurd h hce
+          · rw [hopt] at h; simp at h
+          · exact h
+        exact all_opt_single segs.gen hall hcnt (optional_has_opt segs hopt)
+theorem stage2List_of_classes : ∀ (cs : List Route), wfList cs = true → anyOptParent cs = false →
+    anyMultiOpt cs = false → anyInnerOptTuple cs = false → stage2List cs = true
+  | [], _, _, _, _ => rfl
+  | c :: cs, hw, h1, h2, h3 => by
+    simp only [wfList, Bool.and_eq_true] at hw
+    simp only [anyOptParent, Bool.or_eq_false_iff] at h1
+    simp only [anyMultiOpt, Bool.or_eq_false_iff] at h2
+    simp only [anyInnerOptTuple, Bool.or_eq_false_iff] at h3
+    simp only [stage2List, Bool.and_eq_true]
+    exact ⟨stage2_of_classes c hw.1 h1.1 h2.1 h3.1, stage2List_of_classes cs hw.2 h1.2 h2.2 h3.2⟩
+end
+
+theorem route_aligned2 (d : Defs) (hb : baseOk d.base = true) (hs : stage2List d.tops = true) (path : Path)
+    (hp : startsSlash path = true) :
+    mres (matchRoute .aligned d path) =
+      match firstDefT (d.tops.map fun t => prefixAll (normBase d.base) t.ro) 0 path with
+      | some (i, ps) => .some (some i, ps)
+      | none => .none := by
+  unfold matchRoute
+  rw [firstDefT_gen Route.ro firstDef2 (fun _ _ => rfl) (fun _ _ _ _ => rfl) d.base hb path hp]
+  cases stripBase .aligned d.base path with
+  | none => simp [mres]
+  | some p =>
+    have hc := children_aligned2 d.tops hs 0 p
+    simp only
+    cases hm : matchChildren .aligned d.tops 0 p with
+    | panic => rw [hm] at hc; cases hf : firstDef2 d.tops 0 p <;> simp [hf, nres] at hc
+    | none =>
+      rw [hm] at hc
+      cases hf : firstDef2 d.tops 0 p with
+      | some x => simp [hf, nres] at hc
+      | none => simp [mres]
+    | some m rem =>
+      rw [hm] at hc
+      have hcomp := children_rem_complete .aligned d.tops 0 p m rem hm
+      cases hf : firstDef2 d.tops 0 p with
+      | none => simp [hf, nres] at hc
+      | some x =>
+        obtain ⟨j, ps⟩ := x
+        simp [hf, nres] at hc
+        simp [hcomp, mres, hc]
+
+/-- **match ⇔ flat with optional params, stage 2** — the final form: for every well-formed table and every
+request path OUTSIDE the known-finding classes, i.e. with
+`anyOptParent = false` (no route with children has an optional param next to a mandatory segment; a parent
+that IS one optional param, `/:lang?` → …, is covered: that is what the router's fallback is for),
+`anyMultiOpt = false`, `anyInnerOptTuple = false` and `SegmentAligned`, the property holds.  The four
+hypotheses are the predicates `classify` files failures under (`C14_classify_sound`). -/
+theorem C14_match_iff_flat_optional (d : Defs) (path : Path) (hw : d.wf = true)
+    (hp : startsSlash path = true) (h1 : anyOptParent d.tops = false) (h2 : anyMultiOpt d.tops = false)
+    (h3 : anyInnerOptTuple d.tops = false) (hal : SegmentAligned d path) : Holds d path := by
+  simp only [Defs.wf, Bool.and_eq_true, Bool.not_eq_true'] at hw
+  obtain ⟨⟨hb, hwl⟩, _⟩ := hw
+  have hs := stage2List_of_classes d.tops hwl h1 h2 h3
+  unfold Holds
+  rw [hal]
+  cases path with
+  | nil => simp [startsSlash] at hp
+  | cons c t' =>
+    have hc : c = '/' := by simpa [startsSlash] using hp
+    subst hc
+    exact judge_of_table2 Route.ro regRoutes d hb t'
+      (fun t ht G => ro_mem t (stage2List_mem d.tops t hs ht) G)
+      (fun t ht => ro_ok d.base hb t (stage2List_mem d.tops t hs ht))
+      (expandedPerDef_eq1 d) _ (route_aligned2 d hb hs _ hp)
+
+
+
+theorem one_opt_rem_aligned (segs : Seg) (hwf : ∀ f ∈ segs.gen, WfAO f) (hin : segs.innerOptTuple = false)
+    (hcnt : countOptF segs.gen ≤ 1) (n : List Char) (hgen : segs.gen = [.opt n]) (path : Path) (pm : PM)
+    (h : segs.test .aligned path = .some pm) : Aligned pm.remaining := by
+  have hrp := one_opt_test .aligned segs path hin hcnt
+  rw [optSeq_aligned segs.gen hwf hcnt path, hgen, optSeqSpec_single, h] at hrp
+  cases hsp : optSpec n path with
+  | none => simp [hsp, Out.rp, ofOpt] at hrp
+  | some x =>
+    obtain ⟨r, ps⟩ := x
+    simp [hsp, Out.rp, ofOpt] at hrp
+    rw [hrp.1]
+    exact optSpec_aligned n path r ps hsp
+
+mutual
+theorem nested_cur_eq_aligned2 : ∀ (r : Route), r.stage2 = true → r.noSlashSeg = true → ∀ (pos : Nat) (path : Path),
+    Aligned path → matchNested .cur r pos path = matchNested .aligned r pos path
+  | .mk segs children, hg, hns, pos, path, hp => by
+    simp only [Route.stage2, Bool.and_eq_true, Bool.not_eq_true', List.all_eq_true, decide_eq_true_eq] at hg
+    obtain ⟨⟨⟨⟨hwf, hin⟩, hcnt⟩, hkind⟩, hch⟩ := hg
+    simp only [Route.noSlashSeg, Bool.and_eq_true, List.all_eq_true] at hns
+    have heqt : ∀ p, Aligned p → segs.test .cur p = segs.test .aligned p := by
+      intro p hpa
+      have h1 := one_opt_test .cur segs p hin hcnt
+      have h2 := one_opt_test .aligned segs p hin hcnt
+      exact test_eq_of_rp .cur .aligned segs p
+        (by rw [h1, h2, optSeq_cur_eq_aligned segs.gen hwf hns.1 hcnt p hpa])
+    by_cases hce : children.isEmpty = true
+    · simp only [matchNested, heqt path hp, hce, if_true]
+    · simp only [hce, Bool.false_eq_true, if_false, Bool.or_eq_true, Bool.and_eq_true, Bool.not_eq_true'] at hkind
+      have ihc := children_cur_eq_aligned2 children hch hns.2 0
+      by_cases hpure : isPureOpt segs.gen = true
+      · obtain ⟨n, hgen⟩ : ∃ n, segs.gen = [.opt n] := by
+          cases hgg : segs.gen with
+          | nil => simp [hgg, isPureOpt] at hpure
+          | cons f F =>
+            cases f <;> cases F <;> simp [hgg, isPureOpt] at hpure
+            exact ⟨_, rfl⟩
+        simp only [matchNested, heqt path hp, heqt [] (Or.inl rfl), Ver.fixed, if_true, ihc path hp]
+        cases hT : segs.test .aligned path with
+        | panic => rfl
+        | none => rfl
+        | some pm =>
+          have hal := one_opt_rem_aligned segs hwf hin hcnt n hgen path pm hT
+          simp only [ihc pm.remaining hal]
+      · have hnp : isPureOpt segs.gen = false := by simpa using hpure
+        have hkind' : segs.optional = false ∧ noSplat segs.gen = true := by
+          rcases hkind with h | h
+          · exact h
+          · rw [h] at hnp; simp at hnp
+        obtain ⟨hopt, _⟩ := hkind'
+        have hwfa : ∀ f ∈ segs.gen, WfA f := fun f hf => wfa_of_wfao (hwf f hf) (gen_noOpt segs hopt f hf)
+        simp only [matchNested, heqt path hp, hopt]
+        cases hT : segs.test .aligned path with
+        | panic => rfl
+        | none => rfl
+        | some pm =>
+          have hT' : seqTest .aligned segs.gen path = .some pm := by
+            rw [← flatten_test .aligned segs path hopt]; exact hT
+          have hal := seqTest_rem_aligned segs.gen hwfa hns.1 path pm hp hT'
+          simp only [ihc pm.remaining hal]
+          rfl
+theorem children_cur_eq_aligned2 : ∀ (cs : List Route), stage2List cs = true → noSlashSegList cs = true →
+    ∀ (i : Nat) (path : Path), Aligned path → matchChildren .cur cs i path = matchChildren .aligned cs i path
+  | [], _, _, i, path, _ => by simp [matchChildren]
+  | c :: cs, hg, hns, i, path, hp => by
+    simp only [stage2List, Bool.and_eq_true] at hg
+    simp only [noSlashSegList, Bool.and_eq_true] at hns
+    simp only [matchChildren, nested_cur_eq_aligned2 c hg.1 hns.1 i path hp,
+      children_cur_eq_aligned2 cs hg.2 hns.2 (i + 1) path hp]
+end
+
+/-- no `"/"` segment and outside the optional classes ⇒ always aligned (stage 2) -/
+theorem C14_aligned_without_slash_segments_opt2 (d : Defs) (hw : d.wf = true) (h1 : anyOptParent d.tops = false)
+    (h2 : anyMultiOpt d.tops = false) (h3 : anyInnerOptTuple d.tops = false)
+    (hns : noSlashSegList d.tops = true) (path : Path) (hp : startsSlash path = true) :
+    SegmentAligned d path := by
+  simp only [Defs.wf, Bool.and_eq_true, Bool.not_eq_true'] at hw
+  obtain ⟨⟨hb, hwl⟩, _⟩ := hw
+  have hs := stage2List_of_classes d.tops hwl h1 h2 h3
+  unfold SegmentAligned matchRoute
+  rw [stripBase_cur_eq_aligned d.base hb path hp]
+  cases hsb : stripBase .aligned d.base path with
+  | none => rfl
+  | some p =>
+    have hal := stripBase_aligned_rem d.base path p hp hsb
+    simp only [children_cur_eq_aligned2 d.tops hs hns 0 p hal]
+
+/-- stage 2 without `SegmentAligned`, for tables without a `"/"` static segment -/
+theorem C14_match_iff_flat_optional_no_slash (d : Defs) (path : Path) (hw : d.wf = true)
+    (hp : startsSlash path = true) (h1 : anyOptParent d.tops = false) (h2 : anyMultiOpt d.tops = false)
+    (h3 : anyInnerOptTuple d.tops = false) (hns : noSlashSegList d.tops = true) : Holds d path :=
+  C14_match_iff_flat_optional d path hw hp h1 h2 h3
+    (C14_aligned_without_slash_segments_opt2 d hw h1 h2 h3 hns path hp)
+
+/-- **every failure is in a known-finding class** (with the classifier's own predicates): on a well-formed
+table, a request path on which the property fails has `anyOptParent` (an optional param next to a mandatory
+segment in a route with children) or `anyMultiOpt` or `anyInnerOptTuple`, or the table has a `"/"` static
+segment and the router leaves the segment grid on that path. -/
+theorem C14_failure_in_class (d : Defs) (path : Path) (hw : d.wf = true) (hp : startsSlash path = true)
+    (hfail : ¬ Holds d path) :
+    anyOptParent d.tops = true ∨ anyMultiOpt d.tops = true ∨ anyInnerOptTuple d.tops = true ∨
+      (noSlashSegList d.tops = false ∧ ¬ SegmentAligned d path) := by
+  cases h1 : anyOptParent d.tops with
+  | true => exact Or.inl rfl
+  | false =>
+    cases h2 : anyMultiOpt d.tops with
+    | true => exact Or.inr (Or.inl rfl)
+    | false =>
+      cases h3 : anyInnerOptTuple d.tops with
+      | true => exact Or.inr (Or.inr (Or.inl rfl))
+      | false =>
+        refine Or.inr (Or.inr (Or.inr ⟨?_, ?_⟩))
+        · cases hns : noSlashSegList d.tops with
+          | false => rfl
+          | true => exact absurd (C14_match_iff_flat_optional_no_slash d path hw hp h1 h2 h3 hns) hfail
+        · intro hal
+          exact hfail (C14_match_iff_flat_optional d path hw hp h1 h2 h3 hal)
+
+
+
+/-! # stage 3: a block of optional params in one route -/
+
+/-- a pass without the byte count -/
+inductive PV where
+  | done (r : Path) (p : Params)
+  | panic
+  | fail
+  | retry
+  deriving DecidableEq
+
+def Pass.view : Pass → PV
+  | .done r _ p => .done r p
+  | .panic => .panic
+  | .fail => .fail
+  | .retry => .retry
+
+theorem view_irrel (k : Ver) : ∀ (l : List Seg) (first : Bool) (inc nth : Nat) (r : Path) (ml ml' : Nat) (p : Params),
+    (passFields k l first inc nth r ml p).view = (passFields k l first inc nth r ml' p).view := by
+  intro l
+  induction l with
+  | nil => intro first inc nth r ml ml' p; rfl
+  | cons ty tys ih =>
+    intro first inc nth r ml ml' p
+    simp only [passFields]
+    by_cases hc : (!ty.optional || decide ((if ty.optional = true then nth + 1 else nth) ≤ inc)) = true
+    · simp only [hc, if_true]
+      cases ty.test k r with
+      | panic => rfl
+      | none => rfl
+      | some m => exact ih _ _ _ _ _ _ _
+    · simp only [hc, if_false]
+      exact ih _ _ _ _ _ _ _
+
+theorem view_append (k : Ver) (l1 l2 : List Seg) (first : Bool) (inc nth : Nat) (r : Path) (p : Params) :
+    (passFields k (l1 ++ l2) first inc nth r 0 p).view =
+      match (passFields k l1 first inc nth r 0 p).view with
+      | .done r' p' => (passFields k l2 (first && l1.isEmpty) inc (nth + countOpt l1) r' 0 p').view
+      | x => x := by
+  rw [passFields_append]
+  cases h : passFields k l1 first inc nth r 0 p with
+  | done r' ml' p' => simp only [Pass.view]; exact view_irrel k _ _ _ _ _ _ _ _
+  | panic => rfl
+  | fail => rfl
+  | retry => rfl
+
+def softV (first : Bool) (inc : Nat) (x : PV) : Prop :=
+  (x = .fail ∨ x = .retry) ∧ (inc = 0 → x = .fail) ∧ (first = false → inc ≠ 0 → x = .retry)
+
+theorem view_noopt (k : Ver) (l : List Seg) (first : Bool) (inc nth : Nat) (r : Path) (p : Params)
+    (h : anyOptional l = false) :
+    match seqRP k (genSegs l) r with
+    | .some (r', ps) => (passFields k l first inc nth r 0 p).view = .done r' (p ++ ps)
+    | .panic => (passFields k l first inc nth r 0 p).view = .panic
+    | .none => softV first inc (passFields k l first inc nth r 0 p).view := by
+  have := pass_noopt k l first inc nth r 0 p h
+  simp only [seqRP]
+  cases hs : seqTest k (genSegs l) r with
+  | some m => rw [hs] at this; simp only at this; simp [Out.rp, this, Pass.view]
+  | panic => rw [hs] at this; simp only at this; simp [Out.rp, this, Pass.view]
+  | none =>
+    rw [hs] at this
+    simp only at this
+    simp only [Out.rp]
+    obtain ⟨h1, h2, h3⟩ := this
+    refine ⟨?_, ?_, ?_⟩
+    · rcases h1 with h1 | h1 <;> simp [h1, Pass.view]
+    · intro hi; simp [h2 hi, Pass.view]
+    · intro hf hi; simp [h3 hf hi, Pass.view]
+
+/-- the first `cnt` optional params of a block take one segment each — if there is one -/
+def softTake (k : Ver) : List (List Char) → Nat → Path → Out (Path × Params)
+  | [], _, r => .some (r, [])
+  | _ :: _, 0, r => .some (r, [])
+  | n :: ns, cnt + 1, r =>
+    match ((toSeg (.opt n)).test k r).rp with
+    | .panic => .panic
+    | .none => .none
+    | .some (r', po) =>
+      match softTake k ns cnt r' with
+      | .some (r'', ps) => .some (r'', po ++ ps)
+      | o => o
+
+/-- a block of optional fields: optional atoms (possibly wrapped in 1-tuples) with these names -/
+def IsOptBlock : List Seg → List (List Char) → Prop
+  | [], [] => True
+  | o :: os, n :: ns => o.optAtomish = true ∧ o.gen = [.opt n] ∧ IsOptBlock os ns
+  | _, _ => False
+
+theorem view_skip_block (k : Ver) : ∀ (OB : List Seg) (ns : List (List Char)), IsOptBlock OB ns →
+    ∀ (first : Bool) (inc nth : Nat) (r : Path) (p : Params), inc ≤ nth →
+      (passFields k OB first inc nth r 0 p).view = .done r p := by
+  intro OB
+  induction OB with
+  | nil => intro ns _ first inc nth r p _; rfl
+  | cons o os ih =>
+    intro ns hb first inc nth r p hle
+    cases ns with
+    | nil => simp [IsOptBlock] at hb
+    | cons n ns =>
+      obtain ⟨ho, _, hrest⟩ := hb
+      have hopt : o.optional = true := (optAtomish_spec k o ho).choose_spec.2.1
+      have : ¬ (nth + 1 ≤ inc) := by omega
+      simp only [passFields, hopt, if_true, Bool.not_true, Bool.false_or, this, decide_false,
+        Bool.false_eq_true, if_false]
+      exact ih ns hrest false inc (nth + 1) r p (by omega)
+
+theorem view_block (k : Ver) : ∀ (OB : List Seg) (ns : List (List Char)), IsOptBlock OB ns →
+    ∀ (first : Bool) (inc nth : Nat) (r : Path) (p : Params),
+      (passFields k OB first inc nth r 0 p).view =
+        match softTake k ns (inc - nth) r with
+        | .some (r', ps) => .done r' (p ++ ps)
+        | .panic => .panic
+        | .none => .fail := by
+  intro OB
+  induction OB with
+  | nil =>
+    intro ns hb first inc nth r p
+    cases ns with
+    | nil => simp [passFields, softTake, Pass.view]
+    | cons n ns => simp [IsOptBlock] at hb
+  | cons o os ih =>
+    intro ns hb first inc nth r p
+    cases ns with
+    | nil => simp [IsOptBlock] at hb
+    | cons n ns =>
+      obtain ⟨ho, hgen, hrest⟩ := hb
+      obtain ⟨n', hgen', hopt, htest⟩ := optAtomish_spec k o ho
+      have hn : n' = n := by rw [hgen] at hgen'; simpa using hgen'.symm
+      subst hn
+      by_cases hinc : nth + 1 ≤ inc
+      · obtain ⟨c, hc⟩ : ∃ c, inc - nth = c + 1 := ⟨inc - nth - 1, by omega⟩
+        have hc' : inc - (nth + 1) = c := by omega
+        simp only [passFields, hopt, if_true, Bool.not_true, Bool.false_or, hinc, decide_true, hc, softTake]
+        have ht := htest r
+        cases hto : o.test k r with
+        | panic =>
+          rw [hto] at ht
+          have : ((toSeg (.opt n')).test k r).rp = .panic := by rw [← ht]; rfl
+          simp [this, Pass.view]
+        | none =>
+          rw [hto] at ht
+          have : ((toSeg (.opt n')).test k r).rp = .none := by rw [← ht]; rfl
+          rw [this]
+          cases first <;> simp [Pass.view]
+        | some m =>
+          rw [hto] at ht
+          have : ((toSeg (.opt n')).test k r).rp = .some (m.remaining, m.params) := by rw [← ht]; rfl
+          rw [this]
+          simp only
+          rw [view_irrel k os false inc (nth + 1) m.remaining _ 0 _, ih ns hrest false inc (nth + 1) m.remaining
+            (p ++ m.params), hc']
+          cases softTake k ns c m.remaining with
+          | some x => obtain ⟨r'', ps⟩ := x; simp [List.append_assoc]
+          | panic => rfl
+          | none => rfl
+      · have h0 : inc - nth = 0 := by omega
+        simp only [passFields, hopt, if_true, Bool.not_true, Bool.false_or, hinc, decide_false,
+          Bool.false_eq_true, if_false, h0, softTake]
+        rw [List.append_nil]
+        exact view_skip_block k os ns hrest false inc (nth + 1) r p (by omega)
+
+
+
+/-- the back-off over a block of optionals, seen from the flat list: with `inc` optionals included,
+then with one fewer, … as long as the segments after the block do not match -/
+def blockTry (k : Ver) (ns : List (List Char)) (B : List FSeg) (r1 : Path) (pa : Params) : Nat → Out (Path × Params)
+  | 0 =>
+    match softTake k ns 0 r1 with
+    | .panic => .panic
+    | .none => .none
+    | .some (r2, po) =>
+      match seqRP k B r2 with
+      | .some (r3, pb) => .some (r3, pa ++ po ++ pb)
+      | .panic => .panic
+      | .none => .none
+  | i + 1 =>
+    match softTake k ns (i + 1) r1 with
+    | .panic => .panic
+    | .none => .none
+    | .some (r2, po) =>
+      match seqRP k B r2 with
+      | .some (r3, pb) => .some (r3, pa ++ po ++ pb)
+      | .panic => .panic
+      | .none => blockTry k ns B r1 pa i
+
+def blockRP (k : Ver) (A : List FSeg) (ns : List (List Char)) (B : List FSeg) (inc : Nat) (path : Path) :
+    Out (Path × Params) :=
+  match seqRP k A path with
+  | .some (r1, pa) => blockTry k ns B r1 pa inc
+  | .none => .none
+  | .panic => .panic
+
+def PV.rp : PV → Out (Path × Params)
+  | .done r p => .some (r, p)
+  | .panic => .panic
+  | _ => .none
+
+theorem Pass.rp_view (x : Pass) : x.rp = x.view.rp := by cases x <;> rfl
+
+theorem backoff_view_soft (f : Nat → Pass) (hs : ∀ i, (f i).view = .fail ∨ (f i).view = .retry)
+    (h0 : (f 0).view = .fail) : ∀ n, (backoff f n).rp = .none := by
+  intro n
+  induction n with
+  | zero => simp only [backoff]; rw [Pass.rp_view, h0]; rfl
+  | succ n ih =>
+    simp only [backoff]
+    rcases hs (n + 1) with h | h
+    · cases hf : f (n + 1) <;> simp [hf, Pass.view] at h ⊢ <;> rfl
+    · cases hf : f (n + 1) <;> simp [hf, Pass.view] at h ⊢
+      exact ih
+
+theorem countOpt_block : ∀ (OB : List Seg) (ns : List (List Char)), IsOptBlock OB ns → countOpt OB = ns.length := by
+  intro OB
+  induction OB with
+  | nil => intro ns h; cases ns <;> simp [IsOptBlock] at h ⊢; rfl
+  | cons o os ih =>
+    intro ns h
+    cases ns with
+    | nil => simp [IsOptBlock] at h
+    | cons n ns =>
+      obtain ⟨ho, _, hrest⟩ := h
+      have hopt : o.optional = true := (optAtomish_spec .cur o ho).choose_spec.2.1
+      simp [countOpt, hopt, ih ns hrest]; omega
+
+theorem genSegs_block : ∀ (OB : List Seg) (ns : List (List Char)), IsOptBlock OB ns →
+    genSegs OB = ns.map FSeg.opt := by
+  intro OB
+  induction OB with
+  | nil => intro ns h; cases ns <;> simp [IsOptBlock] at h ⊢; rfl
+  | cons o os ih =>
+    intro ns h
+    cases ns with
+    | nil => simp [IsOptBlock] at h
+    | cons n ns =>
+      obtain ⟨_, hgen, hrest⟩ := h
+      simp [genSegs, hgen, ih ns hrest]
+
+/-- one pass over `LA ++ OB ++ LB` -/
+theorem view_whole (k : Ver) (LA OB LB : List Seg) (ns : List (List Char)) (hLA : anyOptional LA = false)
+    (hLB : anyOptional LB = false) (hOB : IsOptBlock OB ns) (hne : OB ≠ []) (inc : Nat) (path : Path) :
+    (passFields k (LA ++ (OB ++ LB)) true inc 0 path 0 []).view =
+      match seqRP k (genSegs LA) path with
+      | .panic => .panic
+      | .none => (passFields k LA true inc 0 path 0 []).view
+      | .some (r1, pa) =>
+        match softTake k ns inc r1 with
+        | .panic => .panic
+        | .none => .fail
+        | .some (r2, po) =>
+          match seqRP k (genSegs LB) r2 with
+          | .some (r3, pb) => .done r3 (pa ++ po ++ pb)
+          | .panic => .panic
+          | .none => if inc = 0 then .fail else .retry := by
+  rw [view_append]
+  have hA := view_noopt k LA true inc 0 path [] hLA
+  cases hsA : seqRP k (genSegs LA) path with
+  | panic => rw [hsA] at hA; simp only at hA; simp [hA]
+  | none =>
+    rw [hsA] at hA
+    simp only at hA
+    rcases hA.1 with h | h <;> simp [h]
+  | some x =>
+    obtain ⟨r1, pa⟩ := x
+    rw [hsA] at hA
+    simp only at hA
+    simp only [hA, List.nil_append, countOpt_noOpt LA hLA, Nat.add_zero]
+    rw [view_append, view_block k OB ns hOB _ inc 0 r1 pa, Nat.sub_zero]
+    cases hst : softTake k ns inc r1 with
+    | panic => rfl
+    | none => rfl
+    | some y =>
+      obtain ⟨r2, po⟩ := y
+      simp only
+      have hnotfirst : (true && LA.isEmpty && OB.isEmpty) = false := by
+        cases OB with
+        | nil => exact absurd rfl hne
+        | cons _ _ => simp
+      rw [hnotfirst]
+      have hB := view_noopt k LB false inc (0 + countOpt OB) r2 (pa ++ po) hLB
+      rw [Nat.zero_add] at hB
+      cases hsB : seqRP k (genSegs LB) r2 with
+      | panic => rw [hsB] at hB; simp only at hB; simp [hB]
+      | some z => obtain ⟨r3, pb⟩ := z; rw [hsB] at hB; simp only at hB; simp [hB, List.append_assoc]
+      | none =>
+        rw [hsB] at hB
+        simp only at hB
+        by_cases hi : inc = 0
+        · have := hB.2.1 hi
+          subst hi
+          simp [this]
+        · simp [hi, hB.2.2 rfl hi]
+
+/-- **the tuple loop with a block of optional fields**: the back-off includes the first `inc` optionals
+for `inc = m, m-1, …, 0` — only prefixes of the block are ever tried (F-C14-6) -/
+theorem tuple_opt_block (k : Ver) (LA OB LB : List Seg) (ns : List (List Char)) (hLA : anyOptional LA = false)
+    (hLB : anyOptional LB = false) (hOB : IsOptBlock OB ns) (hne : OB ≠ []) (path : Path) :
+    ∀ n, (backoff (fun inc => passFields k (LA ++ (OB ++ LB)) true inc 0 path 0 []) n).rp =
+      blockRP k (genSegs LA) ns (genSegs LB) n path := by
+  have hv := fun inc => view_whole k LA OB LB ns hLA hLB hOB hne inc path
+  unfold blockRP
+  cases hsA : seqRP k (genSegs LA) path with
+  | panic =>
+    intro n
+    have : ∀ inc, (passFields k (LA ++ (OB ++ LB)) true inc 0 path 0 []).view = .panic := by
+      intro inc; rw [hv inc, hsA]
+    cases n with
+    | zero => simp only [backoff]; rw [Pass.rp_view, this 0]; rfl
+    | succ n =>
+      simp only [backoff]
+      have h1 := this (n + 1)
+      cases hf : passFields k (LA ++ (OB ++ LB)) true (n + 1) 0 path 0 [] <;> simp [hf, Pass.view] at h1 ⊢
+      rfl
+  | none =>
+    intro n
+    have hA := fun inc => view_noopt k LA true inc 0 path [] hLA
+    simp only [hsA] at hA
+    apply backoff_view_soft
+    · intro i; rw [hv i, hsA]; exact (hA i).1
+    · rw [hv 0, hsA]; exact (hA 0).2.1 rfl
+  | some x =>
+    obtain ⟨r1, pa⟩ := x
+    intro n
+    induction n with
+    | zero =>
+      simp only [backoff, blockTry]
+      rw [Pass.rp_view, hv 0, hsA]
+      simp only
+      cases softTake k ns 0 r1 with
+      | panic => rfl
+      | none => rfl
+      | some y =>
+        obtain ⟨r2, po⟩ := y
+        simp only
+        cases seqRP k (genSegs LB) r2 with
+        | panic => rfl
+        | none => rfl
+        | some z => obtain ⟨r3, pb⟩ := z; rfl
+    | succ n ih =>
+      simp only [backoff, blockTry]
+      have h1 := hv (n + 1)
+      rw [hsA] at h1
+      simp only at h1
+      cases hst : softTake k ns (n + 1) r1 with
+      | panic =>
+        rw [hst] at h1
+        cases hf : passFields k (LA ++ (OB ++ LB)) true (n + 1) 0 path 0 [] <;> simp [hf, Pass.view] at h1 ⊢
+        rfl
+      | none =>
+        rw [hst] at h1
+        cases hf : passFields k (LA ++ (OB ++ LB)) true (n + 1) 0 path 0 [] <;> simp [hf, Pass.view] at h1 ⊢
+        rfl
+      | some y =>
+        obtain ⟨r2, po⟩ := y
+        rw [hst] at h1
+        simp only at h1 ⊢
+        cases hsB : seqRP k (genSegs LB) r2 with
+        | panic =>
+          rw [hsB] at h1
+          cases hf : passFields k (LA ++ (OB ++ LB)) true (n + 1) 0 path 0 [] <;> simp [hf, Pass.view] at h1 ⊢
+          rfl
+        | some z =>
+          obtain ⟨r3, pb⟩ := z
+          rw [hsB] at h1
+          cases hf : passFields k (LA ++ (OB ++ LB)) true (n + 1) 0 path 0 [] <;> simp [hf, Pass.view] at h1 ⊢
+          simp [Pass.rp, h1]
+        | none =>
+          rw [hsB] at h1
+          simp only [Nat.add_one_ne_zero, if_false] at h1
+          cases hf : passFields k (LA ++ (OB ++ LB)) true (n + 1) 0 path 0 [] <;> simp [hf, Pass.view] at h1 ⊢
+          exact ih
+
+
+
+/-- `(A, names of the block of optionals, B)` of a flat list -/
+def splitBlockB : List FSeg → List (List Char) × List FSeg
+  | .opt n :: r => let (ns, B) := splitBlockB r; (n :: ns, B)
+  | r => ([], r)
+
+def splitBlock : List FSeg → List FSeg × List (List Char) × List FSeg
+  | [] => ([], [], [])
+  | .opt n :: r => let (ns, B) := splitBlockB (.opt n :: r); ([], ns, B)
+  | f :: r => let (A, ns, B) := splitBlock r; (f :: A, ns, B)
+
+/-- the router-side reading of a flat list whose optionals form one block -/
+def optBlockRP (k : Ver) (F : List FSeg) (path : Path) : Out (Path × Params) :=
+  blockRP k (splitBlock F).1 (splitBlock F).2.1 (splitBlock F).2.2 (splitBlock F).2.1.length path
+
+theorem inBlock_decomp : ∀ (r : List Seg), inBlock r = true → innerOptFields r = false →
+    ∃ OB LB ns, r = OB ++ LB ∧ IsOptBlock OB ns ∧ anyOptional LB = false := by
+  intro r
+  induction r with
+  | nil => intro _ _; exact ⟨[], [], [], rfl, trivial, rfl⟩
+  | cons o r ih =>
+    intro hb hin
+    simp only [innerOptFields, Bool.or_eq_false_iff, Bool.and_eq_false_iff] at hin
+    simp only [inBlock] at hb
+    by_cases ho : o.optional = true
+    · simp only [ho, if_true] at hb
+      have hat : o.optAtomish = true := by
+        rcases hin.1.1 with h1 | h1
+        · simp [ho] at h1
+        · simpa using h1
+      obtain ⟨n, hgen, _, _⟩ := optAtomish_spec .cur o hat
+      obtain ⟨OB, LB, ns, h1, h2, h3⟩ := ih hb hin.2
+      exact ⟨o :: OB, LB, n :: ns, by simp [h1], ⟨hat, hgen, h2⟩, h3⟩
+    · simp only [ho, Bool.false_eq_true, if_false, Bool.not_eq_true'] at hb
+      exact ⟨[], o :: r, [], rfl, trivial, hb⟩
+
+theorem fieldsBlock_decomp : ∀ (l : List Seg), fieldsBlock l = true → innerOptFields l = false →
+    anyOptional l = true →
+    ∃ LA OB LB ns, l = LA ++ (OB ++ LB) ∧ anyOptional LA = false ∧ anyOptional LB = false ∧
+      IsOptBlock OB ns ∧ OB ≠ [] := by
+  intro l
+  induction l with
+  | nil => intro _ _ h; simp [anyOptional] at h
+  | cons a r ih =>
+    intro hb hin hany
+    have hin' := hin
+    simp only [innerOptFields, Bool.or_eq_false_iff, Bool.and_eq_false_iff] at hin
+    simp only [fieldsBlock] at hb
+    by_cases ha : a.optional = true
+    · simp only [ha, if_true] at hb
+      have hat : a.optAtomish = true := by
+        rcases hin.1.1 with h1 | h1
+        · simp [ha] at h1
+        · simpa using h1
+      obtain ⟨n, hgen, _, _⟩ := optAtomish_spec .cur a hat
+      obtain ⟨OB, LB, ns, h1, h2, h3⟩ := inBlock_decomp r hb hin.2
+      exact ⟨[], a :: OB, LB, n :: ns, by simp [h1], rfl, h3, ⟨hat, hgen, h2⟩, by simp⟩
+    · have ha' : a.optional = false := by simpa using ha
+      simp only [ha', Bool.false_eq_true, if_false] at hb
+      have hr : anyOptional r = true := by simpa [anyOptional, ha'] using hany
+      obtain ⟨LA, OB, LB, ns, h1, h2, h3, h4, h5⟩ := ih hb hin.2 hr
+      exact ⟨a :: LA, OB, LB, ns, by simp [h1], by simp [anyOptional, ha', h2], h3, h4, h5⟩
+
+theorem noopt_all (F : List FSeg) (h : countOptF F = 0) : ∀ f ∈ F, f.isOpt = false := by
+  induction F with
+  | nil => intro f hf; simp at hf
+  | cons g F ih =>
+    intro f hf
+    have hg : g.isOpt = false := by cases hh : g.isOpt <;> simp [countOptF, hh] at h ⊢
+    have hF : countOptF F = 0 := by simp [countOptF, hg] at h; exact h
+    simp only [List.mem_cons] at hf
+    rcases hf with rfl | hf
+    · exact hg
+    · exact ih hF f hf
+
+theorem splitBlockB_names (ns : List (List Char)) (B : List FSeg) (hB : ∀ f, B.head? = some f → f.isOpt = false) :
+    splitBlockB (ns.map FSeg.opt ++ B) = (ns, B) := by
+  induction ns with
+  | nil =>
+    cases B with
+    | nil => rfl
+    | cons f B' =>
+      have := hB f rfl
+      cases f <;> simp [FSeg.isOpt] at this <;> rfl
+  | cons n ns ih => simp [splitBlockB, ih]
+
+theorem splitBlock_shape (A : List FSeg) (ns : List (List Char)) (B : List FSeg) (hA : countOptF A = 0)
+    (hB : countOptF B = 0) (hne : ns ≠ []) : splitBlock (A ++ (ns.map FSeg.opt ++ B)) = (A, ns, B) := by
+  have hBh : ∀ f, B.head? = some f → f.isOpt = false := by
+    intro f hf
+    cases B with
+    | nil => simp at hf
+    | cons g B' => simp at hf; subst hf; exact noopt_all _ hB g (by simp)
+  induction A with
+  | nil =>
+    cases ns with
+    | nil => exact absurd rfl hne
+    | cons n ns =>
+      have := splitBlockB_names (n :: ns) B hBh
+      simp only [List.map_cons, List.cons_append, List.nil_append] at this ⊢
+      simp only [splitBlock, this]
+  | cons f A ih =>
+    have hf : f.isOpt = false := noopt_all _ hA f (by simp)
+    have hA' : countOptF A = 0 := by simp [countOptF, hf] at hA; exact hA
+    have := ih hA'
+    cases f <;> simp [FSeg.isOpt] at hf <;> simp [splitBlock, this]
+
+theorem splitBlock_noopt (F : List FSeg) (h : countOptF F = 0) : splitBlock F = (F, [], []) := by
+  induction F with
+  | nil => rfl
+  | cons f F ih =>
+    have hf : f.isOpt = false := noopt_all _ h f (by simp)
+    have hF : countOptF F = 0 := by simp [countOptF, hf] at h; exact h
+    cases f <;> simp [FSeg.isOpt] at hf <;> simp [splitBlock, ih hF]
+
+theorem optBlockRP_noopt (k : Ver) (F : List FSeg) (h : countOptF F = 0) (path : Path) :
+    optBlockRP k F path = seqRP k F path := by
+  unfold optBlockRP blockRP
+  rw [splitBlock_noopt F h]
+  simp only [List.length_nil, blockTry, softTake]
+  cases seqRP k F path with
+  | panic => rfl
+  | none => rfl
+  | some x => obtain ⟨r, ps⟩ := x; simp [seqRP, seqTest, Out.rp]
+
+theorem countOptF_optmap (ns : List (List Char)) : countOptF (ns.map FSeg.opt) = ns.length := by
+  induction ns with
+  | nil => rfl
+  | cons n ns ih => simp [countOptF, FSeg.isOpt, ih]; omega
+
+/-- **segment trees whose optional params form one block of direct fields**: the tree behaves like
+`optBlockRP` of its atoms, in every version of the code -/
+theorem block_test (k : Ver) : ∀ (s : Seg) (path : Path), s.innerOptTuple = false → s.optBlock = true →
+    (s.test k path).rp = optBlockRP k s.gen path
+  | .st s, path, _, _ => by
+    rw [optBlockRP_noopt k _ (by simp [Seg.gen, countOptF, FSeg.isOpt])]
+    simp only [Seg.gen, seqRP, seqTest, toSeg]
+    cases Seg.test k (.st s) path <;> simp [Out.rp]
+  | .param n, path, _, _ => by
+    rw [optBlockRP_noopt k _ (by simp [Seg.gen, countOptF, FSeg.isOpt])]
+    simp only [Seg.gen, seqRP, seqTest, toSeg]
+    cases Seg.test k (.param n) path <;> simp [Out.rp]
+  | .splat n, path, _, _ => by
+    rw [optBlockRP_noopt k _ (by simp [Seg.gen, countOptF, FSeg.isOpt])]
+    simp only [Seg.gen, seqRP, seqTest, toSeg]
+    cases Seg.test k (.splat n) path <;> simp [Out.rp]
+  | .opt n, path, _, _ => by
+    simp only [Seg.gen, optBlockRP, splitBlock, splitBlockB, blockRP, seqRP, seqTest, Out.rp, List.length_cons,
+      List.length_nil, blockTry, softTake, toSeg]
+    cases Seg.test k (.opt n) path <;> simp
+  | .tup [], path, _, _ => by
+    simp [Seg.test, Seg.gen, genSegs, optBlockRP, splitBlock, blockRP, seqRP, seqTest, Out.rp, blockTry, softTake]
+  | .tup [a], path, h, hb => by
+    have ha : a.innerOptTuple = false := by simpa [Seg.innerOptTuple] using h
+    have hba : a.optBlock = true := by simpa [Seg.optBlock] using hb
+    have ih := block_test k a path ha hba
+    simp only [Seg.gen, genSegs, List.append_nil]
+    rw [← ih]
+    simp only [Seg.test]
+    cases ht : a.test k path with
+    | panic => rfl
+    | none => rfl
+    | some m =>
+      have hp := test_partition k a path m ht
+      have := splitBytes_bytes m.matched m.remaining
+      rw [hp] at this
+      simp [this, Out.rp]
+  | .tup (a :: b :: l), path, h, hb => by
+    have hin : innerOptFields (a :: b :: l) = false := by simpa [Seg.innerOptTuple] using h
+    have hfb : fieldsBlock (a :: b :: l) = true := by simpa [Seg.optBlock] using hb
+    simp only [Seg.gen]
+    by_cases hany : anyOptional (a :: b :: l) = true
+    · obtain ⟨LA, OB, LB, ns, hl, hLA, hLB, hOB, hne⟩ := fieldsBlock_decomp _ hfb hin hany
+      have hbk := tuple_opt_block k LA OB LB ns hLA hLB hOB hne path ns.length
+      have hcnt : countOpt (a :: b :: l) = ns.length := by
+        rw [hl, countOpt_append, countOpt_append, countOpt_noOpt LA hLA, countOpt_noOpt LB hLB,
+          countOpt_block OB ns hOB]; omega
+      have hnsne : ns ≠ [] := by
+        intro h0; subst h0
+        cases OB with
+        | nil => exact hne rfl
+        | cons o os => simp [IsOptBlock] at hOB
+      have hgs : genSegs (a :: b :: l) = genSegs LA ++ (ns.map FSeg.opt ++ genSegs LB) := by
+        rw [hl, genSegs_append, genSegs_append, genSegs_block OB ns hOB]
+      unfold optBlockRP
+      rw [hgs, splitBlock_shape _ ns _ (countOptF_noopt LA hLA) (countOptF_noopt LB hLB) hnsne, ← hbk]
+      simp only [Seg.test, hcnt]
+      rw [← hl]
+      cases hb' : backoff (fun inc => passFields k (a :: b :: l) true inc 0 path 0 []) ns.length with
+      | done r ml p =>
+        obtain ⟨inc, hinc⟩ := backoff_done _ _ _ _ _ hb'
+        obtain ⟨c, hc1, hc2⟩ := pass_inv k (a :: b :: l) true inc 0 path 0 [] path [] r ml p (by simp)
+          (by simp [bytes]) hinc
+        have := splitBytes_bytes c r
+        rw [hc1, hc2] at this
+        simp [this, Out.rp, Pass.rp]
+      | panic => simp [Out.rp, Pass.rp]
+      | fail => simp [Out.rp, Pass.rp]
+      | retry => simp [Out.rp, Pass.rp]
+    · have hany' : anyOptional (a :: b :: l) = false := by simpa using hany
+      have hfl := flatten_test k (.tup (a :: b :: l)) path (by simpa [Seg.optional] using hany')
+      rw [hfl]
+      simp only [Seg.gen]
+      rw [optBlockRP_noopt k _ (countOptF_noopt _ hany')]
+      rfl
+
+
+
+/-! ## the optional block on characters -/
+
+def softSpec : List (List Char) → Nat → Path → Option (Path × Params)
+  | [], _, r => some (r, [])
+  | _ :: _, 0, r => some (r, [])
+  | n :: ns, c + 1, r =>
+    match optSpec n r with
+    | none => none
+    | some (r', po) =>
+      match softSpec ns c r' with
+      | some (r'', ps) => some (r'', po ++ ps)
+      | none => none
+
+theorem softSpec_zero (ns : List (List Char)) (r : Path) : softSpec ns 0 r = some (r, []) := by
+  cases ns <;> rfl
+
+theorem soft_aligned : ∀ (ns : List (List Char)) (c : Nat) (r : Path),
+    softTake .aligned ns c r = ofOpt (softSpec ns c r) := by
+  intro ns
+  induction ns with
+  | nil => intro c r; simp [softTake, softSpec, ofOpt]
+  | cons n ns ih =>
+    intro c r
+    cases c with
+    | zero => simp [softTake, softSpec, ofOpt]
+    | succ c =>
+      simp only [softTake, softSpec, opt_aligned]
+      cases optSpec n r with
+      | none => simp [ofOpt]
+      | some x =>
+        obtain ⟨r', po⟩ := x
+        simp only [ofOpt, ih c r']
+        cases softSpec ns c r' with
+        | none => simp [ofOpt]
+        | some y => obtain ⟨r'', ps⟩ := y; simp [ofOpt]
+
+def blockSpecTry (ns : List (List Char)) (B : List FSeg) (r1 : Path) : Nat → Option (Path × Params)
+  | 0 =>
+    match softSpec ns 0 r1 with
+    | none => none
+    | some (r2, po) =>
+      match seqSpec B r2 with
+      | some (r3, pb) => some (r3, po ++ pb)
+      | none => none
+  | i + 1 =>
+    match softSpec ns (i + 1) r1 with
+    | none => none
+    | some (r2, po) =>
+      match seqSpec B r2 with
+      | some (r3, pb) => some (r3, po ++ pb)
+      | none => blockSpecTry ns B r1 i
+
+theorem blockTry_aligned (ns : List (List Char)) (B : List FSeg) (hB : ∀ f ∈ B, WfA f) (r1 : Path) (pa : Params) :
+    ∀ inc, blockTry .aligned ns B r1 pa inc =
+      match blockSpecTry ns B r1 inc with
+      | some (r3, ps) => .some (r3, pa ++ ps)
+      | none => .none := by
+  intro inc
+  induction inc with
+  | zero =>
+    simp only [blockTry, blockSpecTry, soft_aligned]
+    cases softSpec ns 0 r1 with
+    | none => simp [ofOpt]
+    | some x =>
+      obtain ⟨r2, po⟩ := x
+      simp only [ofOpt, seqRP_aligned B hB]
+      cases seqSpec B r2 with
+      | none => simp [ofOpt]
+      | some y => obtain ⟨r3, pb⟩ := y; simp [ofOpt, List.append_assoc]
+  | succ i ih =>
+    simp only [blockTry, blockSpecTry, soft_aligned]
+    cases softSpec ns (i + 1) r1 with
+    | none => simp [ofOpt]
+    | some x =>
+      obtain ⟨r2, po⟩ := x
+      simp only [ofOpt, seqRP_aligned B hB]
+      cases seqSpec B r2 with
+      | none => simp only [ofOpt]; exact ih
+      | some y => obtain ⟨r3, pb⟩ := y; simp [ofOpt, List.append_assoc]
+
+/-- a flat route whose optionals form one block accepts the path, router-side reading -/
+def gmatchB (F : List FSeg) (path : Path) : Option Params :=
+  match seqSpec (splitBlock F).1 path with
+  | none => none
+  | some (r1, pa) =>
+    match blockSpecTry (splitBlock F).2.1 (splitBlock F).2.2 r1 (splitBlock F).2.1.length with
+    | some (r3, ps) => if complete r3 then some (pa ++ ps) else none
+    | none => none
+
+theorem optBlock_aligned (F : List FSeg) (hA : ∀ f ∈ (splitBlock F).1, WfA f)
+    (hB : ∀ f ∈ (splitBlock F).2.2, WfA f) (path : Path) :
+    (match optBlockRP .aligned F path with
+      | .some (r, ps) => if complete r then Out.some ps else .none
+      | .none => .none
+      | .panic => .panic) = ofOpt (gmatchB F path) := by
+  unfold optBlockRP blockRP gmatchB
+  rw [seqRP_aligned _ hA]
+  cases seqSpec (splitBlock F).1 path with
+  | none => simp [ofOpt]
+  | some x =>
+    obtain ⟨r1, pa⟩ := x
+    simp only [ofOpt, blockTry_aligned _ _ hB]
+    cases blockSpecTry (splitBlock F).2.1 (splitBlock F).2.2 r1 (splitBlock F).2.1.length with
+    | none => simp [ofOpt]
+    | some y =>
+      obtain ⟨r3, ps⟩ := y
+      simp only
+      split <;> simp [ofOpt]
+
+/-! ## prefix expansions -/
+
+def paramsOf (ns : List (List Char)) : List FSeg := ns.map FSeg.param
+
+/-- the expansions that keep a prefix of the block, longest first -/
+def prefixExps (ns : List (List Char)) (B : List FSeg) : Nat → List (List FSeg)
+  | 0 => [B]
+  | j + 1 => (paramsOf (ns.take (j + 1)) ++ B) :: prefixExps ns B j
+
+theorem softSpec_stuck : ∀ (ns : List (List Char)) (c : Nat) (r : Path),
+    (r = [] ∨ ∃ t, r = '/' :: t ∧ segHead t = []) → softSpec ns c r = some (r, []) := by
+  intro ns
+  induction ns with
+  | nil => intro c r _; rfl
+  | cons n ns ih =>
+    intro c r hr
+    cases c with
+    | zero => rfl
+    | succ c =>
+      have ho : optSpec n r = some (r, []) := by
+        rcases hr with rfl | ⟨t, rfl, he⟩
+        · rfl
+        · simp [optSpec, he]
+      simp [softSpec, ho, ih c r hr]
+
+theorem paramsOf_wfa (ns : List (List Char)) (hn : ∀ n ∈ ns, Plain n) : ∀ f ∈ paramsOf ns, WfA f := by
+  intro f hf
+  simp only [paramsOf, List.mem_map] at hf
+  obtain ⟨n, hn', rfl⟩ := hf
+  exact hn n hn'
+
+theorem soft_vs_strict : ∀ (c : Nat) (ns : List (List Char)) (r : Path), c + 1 ≤ ns.length → Aligned r →
+    (∃ r2 po, seqSpec (paramsOf (ns.take (c + 1))) r = some (r2, po) ∧ softSpec ns (c + 1) r = some (r2, po) ∧
+      Aligned r2) ∨
+    (seqSpec (paramsOf (ns.take (c + 1))) r = none ∧ softSpec ns (c + 1) r = softSpec ns c r) := by
+  intro c
+  induction c with
+  | zero =>
+    intro ns r hl hr
+    cases ns with
+    | nil => simp at hl
+    | cons n ns =>
+      rcases hr with rfl | hr
+      · right; simp [paramsOf, seqSpec, atomSpec, softSpec, optSpec, softSpec_zero]
+      · cases r with
+        | nil => simp [startsSlash] at hr
+        | cons ch t =>
+          have hc : ch = '/' := by simpa [startsSlash] using hr
+          subst hc
+          by_cases he : segHead t = []
+          · right; simp [paramsOf, seqSpec, atomSpec, softSpec, optSpec, he, softSpec_zero]
+          · left
+            refine ⟨segTail t, [(n, segHead t)], ?_, ?_, segTail_aligned t⟩
+            · simp [paramsOf, seqSpec, atomSpec, he]
+            · simp [softSpec, optSpec, he, softSpec_zero]
+  | succ c ih =>
+    intro ns r hl hr
+    cases ns with
+    | nil => simp at hl
+    | cons n ns =>
+      have hl' : c + 1 ≤ ns.length := by simpa using hl
+      have hstuck : (r = [] ∨ ∃ t, r = '/' :: t ∧ segHead t = []) →
+          seqSpec (paramsOf ((n :: ns).take (c + 1 + 1))) r = none ∧
+            softSpec (n :: ns) (c + 1 + 1) r = softSpec (n :: ns) (c + 1) r := by
+        intro hs
+        refine ⟨?_, by rw [softSpec_stuck _ _ _ hs, softSpec_stuck _ _ _ hs]⟩
+        rcases hs with rfl | ⟨t, rfl, he⟩
+        · simp [paramsOf, seqSpec, atomSpec]
+        · simp [paramsOf, seqSpec, atomSpec, he]
+      rcases hr with rfl | hr
+      · right; exact hstuck (Or.inl rfl)
+      · cases r with
+        | nil => simp [startsSlash] at hr
+        | cons ch t =>
+          have hc : ch = '/' := by simpa [startsSlash] using hr
+          subst hc
+          by_cases he : segHead t = []
+          · right; exact hstuck (Or.inr ⟨t, rfl, he⟩)
+          · have hopt : optSpec n ('/' :: t) = some (segTail t, [(n, segHead t)]) := by simp [optSpec, he]
+            have hat : atomSpec (.param n) ('/' :: t) = some (segTail t, [(n, segHead t)]) := by
+              simp [atomSpec, he]
+            rcases ih ns (segTail t) hl' (segTail_aligned t) with ⟨r2, po, h1, h2, h3⟩ | ⟨h1, h2⟩
+            · left
+              refine ⟨r2, (n, segHead t) :: po, ?_, ?_, h3⟩
+              · simp only [List.take_succ_cons, paramsOf, List.map_cons, seqSpec, hat]
+                simp only [paramsOf] at h1
+                rw [h1]; simp
+              · simp only [softSpec, hopt, h2]; simp
+            · right
+              refine ⟨?_, ?_⟩
+              · simp only [List.take_succ_cons, paramsOf, List.map_cons, seqSpec, hat]
+                simp only [paramsOf] at h1
+                rw [h1]
+              · simp only [softSpec, hopt, h2]
+
+
+
+/-- (Q'') if `B` accepts a path completely, then started at least one `/` later it cannot stop with
+something left over -/
+theorem no_leftover_general (B : List FSeg) (hw : ∀ f ∈ B, WfA f) (hsl : splatLast B = true)
+    (Y P2 ra r3 : Path) (pa p3 : Params) (hY : 1 ≤ slashes Y)
+    (h1 : seqSpec B (Y ++ P2) = some (ra, pa)) (hc : complete ra = true)
+    (h2 : seqSpec B P2 = some (r3, p3)) : complete r3 = true := by
+  by_cases hns : noSplat B = true
+  · obtain ⟨e1, pre1, s1⟩ := seq_slashes B hw hns _ _ _ h1
+    obtain ⟨e2, pre2, s2⟩ := seq_slashes B hw hns _ _ _ h2
+    rw [slashes_append] at e1
+    have hra : slashes ra = slashes Y + slashes r3 := by omega
+    rcases complete_slashes hc with hra0 | hra1
+    · rw [hra0] at hra; simp [slashes] at hra; omega
+    · have h30 : slashes r3 = 0 := by rw [hra1] at hra; simp [slashes] at hra; omega
+      by_cases hr3 : r3 = []
+      · simp [hr3, complete]
+      · exfalso
+        have hlast1 : lastC (Y ++ P2) = some '/' := by
+          rw [s1, hra1, lastC_append _ _ (by simp)]; rfl
+        have hlast2 : lastC (Y ++ P2) = lastC r3 := by
+          rw [s2, ← List.append_assoc, lastC_append _ _ hr3]
+        rw [hlast2] at hlast1
+        exact lastC_slashes0 r3 hr3 h30 hlast1
+  · have : r3 = [] := seq_splat_rem B hw hsl (by simpa using hns) _ _ _ h2
+    simp [this, complete]
+
+theorem mem_prefixExps (ns : List (List Char)) (B : List FSeg) : ∀ (inc : Nat) (G : List FSeg),
+    G ∈ prefixExps ns B inc → ∃ j, j ≤ inc ∧ G = paramsOf (ns.take j) ++ B := by
+  intro inc
+  induction inc with
+  | zero => intro G h; simp [prefixExps] at h; exact ⟨0, Nat.le_refl _, by simp [h, paramsOf]⟩
+  | succ i ih =>
+    intro G h
+    simp only [prefixExps, List.mem_cons] at h
+    rcases h with rfl | h
+    · exact ⟨i + 1, Nat.le_refl _, rfl⟩
+    · obtain ⟨j, hj, hG⟩ := ih G h
+      exact ⟨j, by omega, hG⟩
+
+theorem firstG_none_of_all (Gs : List (List FSeg)) (r : Path) (h : ∀ G ∈ Gs, gmatch G r = none) :
+    firstG Gs r = none := by
+  induction Gs with
+  | nil => rfl
+  | cons G Gs ih => simp [firstG, h G (by simp), ih (fun X hX => h X (by simp [hX]))]
+
+theorem consumesAll_params (ns : List (List Char)) : consumesAll (paramsOf ns) = ns.length := by
+  induction ns with
+  | nil => rfl
+  | cons n ns ih => simp only [paramsOf, List.map_cons, consumesAll, consumes, List.length_cons] at ih ⊢; omega
+
+theorem noSplat_params (ns : List (List Char)) : noSplat (paramsOf ns) = true := by
+  induction ns with
+  | nil => rfl
+  | cons n ns ih => simpa [paramsOf, noSplat] using ih
+
+/-- once the pass with `inc + 1` optionals leaves something over, no shorter prefix expansion accepts -/
+theorem shorter_prefixes_reject (ns : List (List Char)) (hn : ∀ n ∈ ns, Plain n) (B : List FSeg)
+    (hw : ∀ f ∈ B, WfA f) (hsl : splatLast B = true) (inc : Nat) (hlenns : inc + 1 ≤ ns.length)
+    (r1 r2 r3 : Path) (po pb : Params)
+    (h1 : seqSpec (paramsOf (ns.take (inc + 1))) r1 = some (r2, po)) (h2 : seqSpec B r2 = some (r3, pb))
+    (hinc : complete r3 = false) : firstG (prefixExps ns B inc) r1 = none := by
+  apply firstG_none_of_all
+  intro G hG
+  obtain ⟨j, hj, rfl⟩ := mem_prefixExps ns B inc G hG
+  cases hg : gmatch (paramsOf (ns.take j) ++ B) r1 with
+  | none => rfl
+  | some q =>
+    exfalso
+    rw [gmatch_append] at hg
+    cases hsj : seqSpec (paramsOf (ns.take j)) r1 with
+    | none => simp [hsj] at hg
+    | some x =>
+      obtain ⟨rj, pj⟩ := x
+      simp only [hsj] at hg
+      -- the longer prefix is the shorter one followed by at least one more param
+      have htake : ns.take (inc + 1) = ns.take j ++ (ns.take (inc + 1)).drop j := by
+        have := List.take_append_drop j (ns.take (inc + 1))
+        rw [List.take_take, Nat.min_eq_left (by omega)] at this
+        exact this.symm
+      have hsplit : paramsOf (ns.take (inc + 1)) = paramsOf (ns.take j) ++ paramsOf ((ns.take (inc + 1)).drop j) := by
+        simp only [paramsOf, ← List.map_append, ← htake]
+      rw [hsplit, seqSpec_append, hsj] at h1
+      simp only at h1
+      cases hsR : seqSpec (paramsOf ((ns.take (inc + 1)).drop j)) rj with
+      | none => simp [hsR] at h1
+      | some y =>
+        obtain ⟨r2', pR⟩ := y
+        simp [hsR] at h1
+        obtain ⟨hr2, _⟩ := h1
+        subst hr2
+        have hRw : ∀ f ∈ paramsOf ((ns.take (inc + 1)).drop j), WfA f :=
+          paramsOf_wfa _ (fun n hn' => hn n (List.mem_of_mem_take (List.mem_of_mem_drop hn')))
+        obtain ⟨e, pre, s⟩ := seq_slashes _ hRw (noSplat_params _) _ _ _ hsR
+        have hlen : 1 ≤ ((ns.take (inc + 1)).drop j).length := by
+          rw [List.length_drop, List.length_take, Nat.min_eq_left hlenns]; omega
+        have hpre : 1 ≤ slashes pre := by
+          rw [s, slashes_append, consumesAll_params] at e; omega
+        cases hsB : seqSpec B rj with
+        | none => simp [gmatch, hsB] at hg
+        | some z =>
+          obtain ⟨ra, pa⟩ := z
+          simp only [gmatch, hsB] at hg
+          by_cases hca : complete ra = true
+          · rw [s] at hsB
+            have := no_leftover_general B hw hsl pre r2' ra r3 pa pb hpre hsB hca h2
+            rw [this] at hinc; simp at hinc
+          · simp [hca] at hg
+
+
+
+def completeP : Option (Path × Params) → Option Params
+  | some (r, ps) => if complete r then some ps else none
+  | none => none
+
+theorem softSpec_unaligned (n : List Char) (ns : List (List Char)) (c : Nat) (r : Path) (h1 : r ≠ [])
+    (h2 : startsSlash r = false) : softSpec (n :: ns) (c + 1) r = none := by
+  cases r with
+  | nil => simp at h1
+  | cons ch t =>
+    have hc : ch ≠ '/' := by simpa [startsSlash] using h2
+    simp [softSpec, optSpec, hc]
+
+/-- the back-off over a block of optionals accepts exactly what the first accepting PREFIX expansion
+accepts, with its params -/
+theorem block_eq_prefix (ns : List (List Char)) (hn : ∀ n ∈ ns, Plain n) (B : List FSeg)
+    (hw : ∀ f ∈ B, WfA f) (hsl : splatLast B = true) (r1 : Path) :
+    ∀ inc, inc ≤ ns.length → completeP (blockSpecTry ns B r1 inc) = firstG (prefixExps ns B inc) r1 := by
+  intro inc
+  induction inc with
+  | zero =>
+    intro _
+    simp only [blockSpecTry, softSpec_zero, prefixExps, firstG, gmatch]
+    cases seqSpec B r1 with
+    | none => rfl
+    | some x => obtain ⟨r3, pb⟩ := x; simp only [completeP, List.nil_append]; split <;> rfl
+  | succ i ih =>
+    intro hle
+    have ih' := ih (by omega)
+    by_cases hal : Aligned r1
+    · rcases soft_vs_strict i ns r1 hle hal with ⟨r2, po, h1, h2, _⟩ | ⟨h1, h2⟩
+      · simp only [blockSpecTry, h2, prefixExps, firstG, gmatch_append, h1]
+        cases hsB : seqSpec B r2 with
+        | none =>
+          simp only [gmatch, hsB, Option.map_none]
+          exact ih'
+        | some x =>
+          obtain ⟨r3, pb⟩ := x
+          simp only [gmatch, hsB, completeP]
+          by_cases hc : complete r3 = true
+          · simp [hc]
+          · have hc' : complete r3 = false := by simpa using hc
+            simp only [hc', Bool.false_eq_true, if_false, Option.map_none]
+            exact (shorter_prefixes_reject ns hn B hw hsl i hle r1 r2 r3 po pb h1 hsB hc').symm
+      · simp only [prefixExps, firstG, gmatch_append, h1]
+        rw [← ih']
+        simp only [blockSpecTry, h2]
+        -- the pass with one more optional takes the same segments as the one below
+        cases i with
+        | zero =>
+          simp only [blockSpecTry]
+          cases softSpec ns 0 r1 with
+          | none => rfl
+          | some x =>
+            obtain ⟨r2, po⟩ := x
+            simp only
+            cases seqSpec B r2 with
+            | none => rfl
+            | some y => rfl
+        | succ i' =>
+          simp only [blockSpecTry]
+          cases softSpec ns (i' + 1) r1 with
+          | none => rfl
+          | some x =>
+            obtain ⟨r2, po⟩ := x
+            simp only
+            cases seqSpec B r2 with
+            | none => rfl
+            | some y => rfl
+    · have hne : r1 ≠ [] := fun h => hal (Or.inl h)
+      have hns : startsSlash r1 = false := by
+        cases hs : startsSlash r1
+        · rfl
+        · exact absurd (Or.inr hs) hal
+      cases ns with
+      | nil => simp at hle
+      | cons n ns' =>
+        simp only [blockSpecTry, softSpec_unaligned n ns' i r1 hne hns, completeP]
+        exact (firstG_unaligned _ r1 hne hns).symm
+
+theorem gmatchB_eq_prefix (F : List FSeg) (hn : ∀ n ∈ (splitBlock F).2.1, Plain n)
+    (hw : ∀ f ∈ (splitBlock F).2.2, WfA f) (hsl : splatLast (splitBlock F).2.2 = true) (path : Path) :
+    gmatchB F path =
+      firstG (prefixAll (splitBlock F).1
+        (prefixExps (splitBlock F).2.1 (splitBlock F).2.2 (splitBlock F).2.1.length)) path := by
+  unfold gmatchB
+  rw [firstG_prefix]
+  cases seqSpec (splitBlock F).1 path with
+  | none => rfl
+  | some x =>
+    obtain ⟨r1, pa⟩ := x
+    simp only
+    rw [← block_eq_prefix _ hn _ hw hsl r1 _ (Nat.le_refl _)]
+    cases blockSpecTry (splitBlock F).2.1 (splitBlock F).2.2 r1 (splitBlock F).2.1.length with
+    | none => rfl
+    | some y => obtain ⟨r3, ps⟩ := y; simp only [completeP]; split <;> simp
+
+
+
+/-! ## prefix expansions and the registered table -/
+
+theorem splitBlockB_recompose : ∀ (F : List FSeg), F = (splitBlockB F).1.map FSeg.opt ++ (splitBlockB F).2 := by
+  intro F
+  induction F with
+  | nil => rfl
+  | cons f F ih =>
+    cases f with
+    | opt n => simp only [splitBlockB, List.map_cons, List.cons_append]; rw [← ih]
+    | st s => rfl
+    | param s => rfl
+    | splat s => rfl
+
+theorem splitBlock_recompose : ∀ (F : List FSeg),
+    F = (splitBlock F).1 ++ ((splitBlock F).2.1.map FSeg.opt ++ (splitBlock F).2.2) ∧ countOptF (splitBlock F).1 = 0 := by
+  intro F
+  induction F with
+  | nil => exact ⟨rfl, rfl⟩
+  | cons f F ih =>
+    cases f with
+    | opt n =>
+      refine ⟨?_, rfl⟩
+      have := splitBlockB_recompose (.opt n :: F)
+      simpa [splitBlock] using this
+    | st s => exact ⟨by simp only [splitBlock, List.cons_append]; rw [← ih.1], by simp [splitBlock, countOptF, FSeg.isOpt, ih.2]⟩
+    | param s => exact ⟨by simp only [splitBlock, List.cons_append]; rw [← ih.1], by simp [splitBlock, countOptF, FSeg.isOpt, ih.2]⟩
+    | splat s => exact ⟨by simp only [splitBlock, List.cons_append]; rw [← ih.1], by simp [splitBlock, countOptF, FSeg.isOpt, ih.2]⟩
+
+theorem expandSpec_noopt (B : List FSeg) (h : countOptF B = 0) : expandSpec B = [B] := by
+  induction B with
+  | nil => rfl
+  | cons f B ih =>
+    have hf : f.isOpt = false := noopt_all _ h f (by simp)
+    have hB : countOptF B = 0 := by simp [countOptF, hf] at h; exact h
+    cases f <;> simp [FSeg.isOpt] at hf <;> simp [expandSpec, ih hB]
+
+/-- (M1) every prefix expansion is registered -/
+theorem prefix_mem_expand (ns : List (List Char)) (B : List FSeg) (hB : countOptF B = 0) :
+    ∀ j, paramsOf (ns.take j) ++ B ∈ expandSpec (ns.map FSeg.opt ++ B) := by
+  induction ns with
+  | nil => intro j; simp [paramsOf, expandSpec_noopt B hB]
+  | cons n ns ih =>
+    intro j
+    simp only [List.map_cons, List.cons_append, expandSpec, List.mem_append, List.mem_map]
+    cases j with
+    | zero => right; simpa [paramsOf] using ih 0
+    | succ j => left; exact ⟨paramsOf (ns.take j) ++ B, ih j, by simp [paramsOf]⟩
+
+/-- a segment without the param's name -/
+def shape : FSeg → FSeg
+  | .param _ => .param []
+  | f => f
+
+theorem atomSpec_shape (f g : FSeg) (h : shape f = shape g) (path : Path) :
+    (atomSpec f path).map (·.1) = (atomSpec g path).map (·.1) := by
+  cases f <;> cases g <;> simp [shape] at h <;> try (subst h; rfl)
+  · cases path with
+    | nil => rfl
+    | cons c t => simp only [atomSpec]; split <;> rfl
+
+theorem seqSpec_shape : ∀ (G G' : List FSeg), G.map shape = G'.map shape → ∀ path,
+    (seqSpec G path).map (·.1) = (seqSpec G' path).map (·.1) := by
+  intro G
+  induction G with
+  | nil => intro G' h path; cases G' <;> simp at h; rfl
+  | cons f G ih =>
+    intro G' h path
+    cases G' with
+    | nil => simp at h
+    | cons g G' =>
+      simp only [List.map_cons, List.cons.injEq] at h
+      have ha := atomSpec_shape f g h.1 path
+      simp only [seqSpec]
+      cases hf : atomSpec f path with
+      | none =>
+        rw [hf] at ha
+        cases hg : atomSpec g path with
+        | none => rfl
+        | some y => rw [hg] at ha; simp at ha
+      | some x =>
+        obtain ⟨r, ps⟩ := x
+        rw [hf] at ha
+        cases hg : atomSpec g path with
+        | none => rw [hg] at ha; simp at ha
+        | some y =>
+          obtain ⟨r', ps'⟩ := y
+          rw [hg] at ha
+          simp at ha
+          subst ha
+          have := ih G' h.2 r
+          simp only
+          cases h1 : seqSpec G r with
+          | none =>
+            rw [h1] at this
+            cases h2 : seqSpec G' r with
+            | none => rfl
+            | some z => rw [h2] at this; simp at this
+          | some z =>
+            obtain ⟨r1, p1⟩ := z
+            rw [h1] at this
+            cases h2 : seqSpec G' r with
+            | none => rw [h2] at this; simp at this
+            | some w => obtain ⟨r2, p2⟩ := w; rw [h2] at this; simpa using this
+
+theorem gmatch_shape (G G' : List FSeg) (h : G.map shape = G'.map shape) (path : Path) :
+    (gmatch G path).isSome = (gmatch G' path).isSome := by
+  have := seqSpec_shape G G' h path
+  unfold gmatch
+  cases h1 : seqSpec G path with
+  | none =>
+    rw [h1] at this
+    cases h2 : seqSpec G' path with
+    | none => rfl
+    | some z => rw [h2] at this; simp at this
+  | some z =>
+    obtain ⟨r1, p1⟩ := z
+    rw [h1] at this
+    cases h2 : seqSpec G' path with
+    | none => rw [h2] at this; simp at this
+    | some w =>
+      obtain ⟨r2, p2⟩ := w
+      rw [h2] at this
+      simp at this
+      subst this
+      simp only
+      split <;> simp
+
+theorem params_shape (ns : List (List Char)) : (paramsOf ns).map shape = List.replicate ns.length (.param []) := by
+  induction ns with
+  | nil => rfl
+  | cons n ns ih => simp only [paramsOf, List.map_cons, shape, List.length_cons, List.replicate_succ] at ih ⊢; rw [ih]
+
+/-- (M2) every registered expansion of a block has the shape of a prefix expansion -/
+theorem expand_shape (ns : List (List Char)) (B : List FSeg) (hB : countOptF B = 0) :
+    ∀ G ∈ expandSpec (ns.map FSeg.opt ++ B), ∃ j, j ≤ ns.length ∧
+      G.map shape = (paramsOf (ns.take j) ++ B).map shape := by
+  induction ns with
+  | nil => intro G hG; simp [expandSpec_noopt B hB] at hG; subst hG; exact ⟨0, Nat.le_refl _, by simp [paramsOf]⟩
+  | cons n ns ih =>
+    intro G hG
+    simp only [List.map_cons, List.cons_append, expandSpec, List.mem_append, List.mem_map] at hG
+    rcases hG with ⟨G', hG', rfl⟩ | hG
+    · obtain ⟨j, hj, hs⟩ := ih G' hG'
+      exact ⟨j + 1, by simp; omega, by simp [paramsOf, shape] at hs ⊢; exact hs⟩
+    · obtain ⟨j, hj, hs⟩ := ih G hG
+      refine ⟨j, by simp; omega, ?_⟩
+      rw [hs]
+      simp only [List.map_append, params_shape]
+      congr 2
+      simp [List.length_take]
+      omega
+
+
+
+/-! ## route trees whose leaves may carry a block of optionals -/
+
+/-- the prefix expansions of a leaf's flat route, longest first: what the router tries -/
+def leafRO (F : List FSeg) : List (List FSeg) :=
+  prefixAll (splitBlock F).1 (prefixExps (splitBlock F).2.1 (splitBlock F).2.2 (splitBlock F).2.1.length)
+
+mutual
+def Route.ro3 : Route → List (List FSeg)
+  | .mk segs children =>
+    if children.isEmpty then leafRO segs.gen
+    else
+      match segs.gen with
+      | [.opt n] => prefixAll [.param n] (ro3List children) ++ ro3List children
+      | g => prefixAll g (ro3List children)
+def ro3List : List Route → List (List FSeg)
+  | [] => []
+  | c :: cs => c.ro3 ++ ro3List cs
+end
+
+mutual
+/-- the hypotheses of stage 3 on a route: a leaf may carry any number of optional params as long as they
+are direct fields (possibly wrapped in 1-tuples) forming one block; a route with children as in stage 2 -/
+def Route.stage3 : Route → Bool
+  | .mk segs children =>
+    segs.gen.all (fun f => decide (WfAO f)) && !segs.innerOptTuple &&
+    (if children.isEmpty then (segs.optBlock && splatLast segs.gen)
+     else (decide (countOptF segs.gen ≤ 1) && ((!segs.optional && noSplat segs.gen) || isPureOpt segs.gen))) &&
+    stage3List children
+def stage3List : List Route → Bool
+  | [] => true
+  | c :: cs => c.stage3 && stage3List cs
+end
+
+def firstDef3 : List Route → Nat → Path → Option (Nat × Params)
+  | [], _, _ => none
+  | c :: cs, i, path =>
+    match firstG c.ro3 path with
+    | some ps => some (i, ps)
+    | none => firstDef3 cs (i + 1) path
+
+theorem firstG_ro3List (cs : List Route) (i : Nat) (path : Path) :
+    firstG (ro3List cs) path = (firstDef3 cs i path).map (·.2) := by
+  induction cs generalizing i with
+  | nil => rfl
+  | cons c cs ih =>
+    simp only [ro3List, firstG_append, firstDef3]
+    cases firstG c.ro3 path with
+    | some ps => rfl
+    | none => exact ih (i + 1)
+
+/-- after the block of a segment tree with one block of optionals nothing optional is left -/
+theorem block_gen_shape : ∀ (s : Seg), s.innerOptTuple = false → s.optBlock = true →
+    countOptF (splitBlock s.gen).2.2 = 0
+  | .st s, _, _ => by simp [Seg.gen, splitBlock, countOptF]
+  | .param n, _, _ => by simp [Seg.gen, splitBlock, countOptF]
+  | .splat n, _, _ => by simp [Seg.gen, splitBlock, countOptF]
+  | .opt n, _, _ => by simp [Seg.gen, splitBlock, splitBlockB, countOptF]
+  | .tup [], _, _ => by simp [Seg.gen, genSegs, splitBlock, countOptF]
+  | .tup [a], h, hb => by
+    have ha : a.innerOptTuple = false := by simpa [Seg.innerOptTuple] using h
+    have hba : a.optBlock = true := by simpa [Seg.optBlock] using hb
+    simpa [Seg.gen, genSegs] using block_gen_shape a ha hba
+  | .tup (a :: b :: l), h, hb => by
+    have hin : innerOptFields (a :: b :: l) = false := by simpa [Seg.innerOptTuple] using h
+    have hfb : fieldsBlock (a :: b :: l) = true := by simpa [Seg.optBlock] using hb
+    simp only [Seg.gen]
+    by_cases hany : anyOptional (a :: b :: l) = true
+    · obtain ⟨LA, OB, LB, ns, hl, hLA, hLB, hOB, hne⟩ := fieldsBlock_decomp _ hfb hin hany
+      have hnsne : ns ≠ [] := by
+        intro h0; subst h0
+        cases OB with
+        | nil => exact hne rfl
+        | cons o os => simp [IsOptBlock] at hOB
+      have hgs : genSegs (a :: b :: l) = genSegs LA ++ (ns.map FSeg.opt ++ genSegs LB) := by
+        rw [hl, genSegs_append, genSegs_append, genSegs_block OB ns hOB]
+      rw [hgs, splitBlock_shape _ ns _ (countOptF_noopt LA hLA) (countOptF_noopt LB hLB) hnsne]
+      exact countOptF_noopt LB hLB
+    · have hany' : anyOptional (a :: b :: l) = false := by simpa using hany
+      rw [splitBlock_noopt _ (countOptF_noopt _ hany')]
+      rfl
+
+theorem splatLast_suffix (X B : List FSeg) (h : splatLast (X ++ B) = true) : splatLast B = true := by
+  induction X with
+  | nil => simpa using h
+  | cons f X ih => exact ih (splatLast_tail f (X ++ B) h)
+
+/-- the facts about `(A, ns, B)` needed to compare a block leaf with the table -/
+theorem leaf_parts (segs : Seg) (hwf : ∀ f ∈ segs.gen, WfAO f) (hin : segs.innerOptTuple = false)
+    (hob : segs.optBlock = true) (hsl : splatLast segs.gen = true) :
+    (∀ f ∈ (splitBlock segs.gen).1, WfA f) ∧ (∀ n ∈ (splitBlock segs.gen).2.1, Plain n) ∧
+    (∀ f ∈ (splitBlock segs.gen).2.2, WfA f) ∧ splatLast (splitBlock segs.gen).2.2 = true ∧
+    countOptF (splitBlock segs.gen).2.2 = 0 := by
+  obtain ⟨hrec, hA0⟩ := splitBlock_recompose segs.gen
+  have hB0 := block_gen_shape segs hin hob
+  have hmemA : ∀ f ∈ (splitBlock segs.gen).1, f ∈ segs.gen := by
+    intro f hf; rw [hrec]; simp [hf]
+  have hmemB : ∀ f ∈ (splitBlock segs.gen).2.2, f ∈ segs.gen := by
+    intro f hf; rw [hrec]; simp [hf]
+  have hmemN : ∀ n ∈ (splitBlock segs.gen).2.1, FSeg.opt n ∈ segs.gen := by
+    intro n hn; rw [hrec]; simp only [List.mem_append, List.mem_map]; right; left; exact ⟨n, hn, rfl⟩
+  refine ⟨fun f hf => wfa_of_wfao (hwf f (hmemA f hf)) (noopt_all _ hA0 f hf),
+    fun n hn => hwf (.opt n) (hmemN n hn),
+    fun f hf => wfa_of_wfao (hwf f (hmemB f hf)) (noopt_all _ hB0 f hf), ?_, hB0⟩
+  rw [hrec, ← List.append_assoc] at hsl
+  exact splatLast_suffix _ _ hsl
+
+mutual
+theorem nested_aligned3 : ∀ (r : Route), r.stage3 = true → ∀ (pos : Nat) (path : Path),
+    nres (matchNested .aligned r pos path) =
+      match firstG r.ro3 path with
+      | some ps => .some (some pos, ps)
+      | none => .none
+  | .mk segs children, hg, pos, path => by
+    simp only [Route.stage3, Bool.and_eq_true, Bool.not_eq_true', List.all_eq_true, decide_eq_true_eq] at hg
+    obtain ⟨⟨⟨hwf, hin⟩, hkind⟩, hch⟩ := hg
+    by_cases hce : children.isEmpty = true
+    · -- a leaf, possibly with a block of optionals
+      simp only [hce, if_true, Bool.and_eq_true] at hkind
+      obtain ⟨hob, hsl⟩ := hkind
+      obtain ⟨hA, hN, hB, hslB, _⟩ := leaf_parts segs hwf hin hob hsl
+      have hrp := block_test .aligned segs path hin hob
+      have hal := optBlock_aligned segs.gen hA hB path
+      have hgm := gmatchB_eq_prefix segs.gen hN hB hslB path
+      simp only [matchNested, Route.ro3, hce, if_true, leafRO]
+      rw [← hgm]
+      cases hT : segs.test .aligned path with
+      | panic =>
+        rw [hT] at hrp
+        have : optBlockRP .aligned segs.gen path = .panic := by rw [← hrp]; rfl
+        rw [this] at hal
+        cases hgb : gmatchB segs.gen path <;> simp [hgb, ofOpt] at hal
+      | none =>
+        rw [hT] at hrp
+        have : optBlockRP .aligned segs.gen path = .none := by rw [← hrp]; rfl
+        rw [this] at hal
+        cases hgb : gmatchB segs.gen path with
+        | some q => simp [hgb, ofOpt] at hal
+        | none => simp [nres]
+      | some pm =>
+        rw [hT] at hrp
+        have : optBlockRP .aligned segs.gen path = .some (pm.remaining, pm.params) := by rw [← hrp]; rfl
+        rw [this] at hal
+        simp only at hal
+        unfold finish
+        by_cases hcomp : complete pm.remaining = true
+        · simp only [hcomp, if_true] at hal
+          cases hgb : gmatchB segs.gen path with
+          | none => simp [hgb, ofOpt] at hal
+          | some q => simp [hgb, ofOpt] at hal; simp [hcomp, nres, hal]
+        · simp only [hcomp, if_false] at hal
+          cases hgb : gmatchB segs.gen path with
+          | some q => simp [hgb, ofOpt] at hal
+          | none => simp [hcomp, nres]
+    · simp only [hce, Bool.false_eq_true, if_false, Bool.or_eq_true, Bool.and_eq_true, Bool.not_eq_true',
+        decide_eq_true_eq] at hkind
+      obtain ⟨hcnt, hkind⟩ := hkind
+      by_cases hpure : isPureOpt segs.gen = true
+      · -- a parent that is one optional param
+        obtain ⟨n, hgen⟩ : ∃ n, segs.gen = [.opt n] := by
+          cases hgg : segs.gen with
+          | nil => simp [hgg, isPureOpt] at hpure
+          | cons f F =>
+            cases f <;> cases F <;> simp [hgg, isPureOpt] at hpure
+            exact ⟨_, rfl⟩
+        have hopt := optional_of_gen_opt segs n hgen
+        have hrp : ∀ p, (segs.test .aligned p).rp = ofOpt (optSpec n p) := by
+          intro p
+          rw [one_opt_test .aligned segs p hin hcnt, optSeq_aligned segs.gen hwf hcnt p, hgen, optSeqSpec_single]
+        have ihc := children_aligned3 children hch 0
+        simp only [matchNested, Route.ro3, hce, Bool.false_eq_true, if_false, hgen, firstG_append, firstG_prefix,
+          seqSpec, firstG_ro3List children 0, hopt, if_true, Ver.fixed]
+        have hnil := hrp []
+        cases hT0 : segs.test .aligned [] with
+        | panic => rw [hT0] at hnil; simp [optSpec, Out.rp, ofOpt] at hnil
+        | none => rw [hT0] at hnil; simp [optSpec, Out.rp, ofOpt] at hnil
+        | some np =>
+          rw [hT0] at hnil
+          simp [optSpec, Out.rp, ofOpt] at hnil
+          have hpath := hrp path
+          cases hT : segs.test .aligned path with
+          | panic => rw [hT] at hpath; cases hsp : optSpec n path <;> simp [hsp, Out.rp, ofOpt] at hpath
+          | none =>
+            rw [hT] at hpath
+            cases hsp : optSpec n path with
+            | some x => simp [hsp, Out.rp, ofOpt] at hpath
+            | none =>
+              cases path with
+              | nil => simp [optSpec] at hsp
+              | cons c t =>
+                have hc : c ≠ '/' := by
+                  intro e; subst e; simp only [optSpec, if_true] at hsp; split at hsp <;> simp at hsp
+                have hu := firstG_unaligned (ro3List children) (c :: t) (by simp) (by simp [startsSlash, hc])
+                rw [firstG_ro3List children 0] at hu
+                simp [atomSpec, hc, hu, nres]
+          | some pm =>
+            rw [hT] at hpath
+            cases hsp : optSpec n path with
+            | none => simp [hsp, Out.rp, ofOpt] at hpath
+            | some x =>
+              obtain ⟨r2, po⟩ := x
+              simp [hsp, Out.rp, ofOpt] at hpath
+              obtain ⟨hr2, hpo⟩ := hpath
+              simp only
+              have ih2 := ihc pm.remaining
+              have ihp := ihc path
+              rw [hr2] at ih2 ⊢
+              have hshape := optSpec_param n path r2 po hsp
+              cases hA : firstDef3 children 0 r2 with
+              | some y =>
+                obtain ⟨j, q⟩ := y
+                rw [hA] at ih2
+                cases hm2 : matchChildren .aligned children 0 r2 with
+                | panic => rw [hm2] at ih2; simp [nres] at ih2
+                | none => rw [hm2] at ih2; simp [nres] at ih2
+                | some inner rem =>
+                  rw [hm2] at ih2
+                  have hcomp := children_rem_complete .aligned children 0 r2 inner rem hm2
+                  simp [nres] at ih2
+                  simp only
+                  rw [finish_nres _ _ _ _ _ hcomp]
+                  rcases hshape with ⟨h1, h2, h3⟩ | ⟨h1, h3⟩
+                  · subst h2; simp [h3, hA, hpo, h1, ih2.2]
+                  · simp [h3, hA, hpo, ih2.2]
+              | none =>
+                rw [hA] at ih2
+                cases hm2 : matchChildren .aligned children 0 r2 with
+                | panic => rw [hm2] at ih2; simp [nres] at ih2
+                | some inner rem => rw [hm2] at ih2; simp [nres] at ih2
+                | none =>
+                  simp only
+                  cases hB : firstDef3 children 0 path with
+                  | none =>
+                    rw [hB] at ihp
+                    cases hmp : matchChildren .aligned children 0 path with
+                    | panic => rw [hmp] at ihp; simp [nres] at ihp
+                    | some inner rem => rw [hmp] at ihp; simp [nres] at ihp
+                    | none =>
+                      rcases hshape with ⟨h1, h2, h3⟩ | ⟨h1, h3⟩
+                      · simp [h3, nres]
+                      · simp [h3, hA, nres]
+                  | some y =>
+                    obtain ⟨j, q⟩ := y
+                    rw [hB] at ihp
+                    cases hmp : matchChildren .aligned children 0 path with
+                    | panic => rw [hmp] at ihp; simp [nres] at ihp
+                    | none => rw [hmp] at ihp; simp [nres] at ihp
+                    | some inner rem =>
+                      rw [hmp] at ihp
+                      have hcomp := children_rem_complete .aligned children 0 path inner rem hmp
+                      simp [nres] at ihp
+                      simp only
+                      rw [finish_nres _ _ _ _ _ hcomp]
+                      rcases hshape with ⟨h1, h2, h3⟩ | ⟨h1, h3⟩
+                      · simp [h3, hnil.2, ihp.2]
+                      · simp [h3, hA, hnil.2, ihp.2]
+      · -- a route with children and no optional of its own
+        have hnp : isPureOpt segs.gen = false := by simpa using hpure
+        have hkind' : segs.optional = false ∧ noSplat segs.gen = true := by
+          rcases hkind with h | h
+          · exact h
+          · rw [h] at hnp; simp at hnp
+        obtain ⟨hopt, hnsp⟩ := hkind'
+        have hwfa : ∀ f ∈ segs.gen, WfA f := fun f hf => wfa_of_wfao (hwf f hf) (gen_noOpt segs hopt f hf)
+        have hflat := flatten_test .aligned segs path hopt
+        have hseq := seq_aligned segs.gen hwfa path
+        have hro : (Route.mk segs children).ro3 = prefixAll segs.gen (ro3List children) := by
+          simp only [Route.ro3, hce, Bool.false_eq_true, if_false]
+          cases hgg : segs.gen with
+          | nil => rfl
+          | cons f F =>
+            cases f with
+            | opt n =>
+              have := gen_noOpt segs hopt (.opt n) (by simp [hgg])
+              simp [FSeg.isOpt] at this
+            | st s => rfl
+            | param s => rfl
+            | splat s => rfl
+        rw [hro]
+        simp only [matchNested, hflat, hce, Bool.false_eq_true, if_false, firstG_prefix,
+          firstG_ro3List children 0]
+        cases hT : seqTest .aligned segs.gen path with
+        | panic => rw [hT] at hseq; cases hsp : seqSpec segs.gen path <;> simp [hsp, Out.rp, ofOpt] at hseq
+        | none =>
+          rw [hT] at hseq
+          cases hsp : seqSpec segs.gen path with
+          | some x => simp [hsp, Out.rp, ofOpt] at hseq
+          | none => simp [nres]
+        | some pm =>
+          rw [hT] at hseq
+          cases hsp : seqSpec segs.gen path with
+          | none => simp [hsp, Out.rp, ofOpt] at hseq
+          | some x =>
+            obtain ⟨r, ps⟩ := x
+            simp [hsp, Out.rp, ofOpt] at hseq
+            obtain ⟨hr, hps⟩ := hseq
+            simp only
+            have ihc := children_aligned3 children hch 0 pm.remaining
+            rw [hr] at ihc ⊢
+            cases hmc : matchChildren .aligned children 0 r with
+            | panic => rw [hmc] at ihc; cases hfd : firstDef3 children 0 r <;> simp [hfd, nres] at ihc
+            | none =>
+              rw [hmc] at ihc
+              cases hfd : firstDef3 children 0 r with
+              | some y => simp [hfd, nres] at ihc
+              | none => simp [hopt, nres]
+            | some inner rem =>
+              rw [hmc] at ihc
+              have hcomp := children_rem_complete .aligned children 0 r inner rem hmc
+              cases hfd : firstDef3 children 0 r with
+              | none => simp [hfd, nres] at ihc
+              | some y =>
+                obtain ⟨j, ps'⟩ := y
+                simp [hfd, nres] at ihc
+                simp only
+                rw [finish_nres _ _ _ _ _ hcomp]
+                simp [hps, ihc.2]
+theorem children_aligned3 : ∀ (cs : List Route), stage3List cs = true → ∀ (i : Nat) (path : Path),
+    nres (matchChildren .aligned cs i path) =
+      match firstDef3 cs i path with
+      | some (j, ps) => .some (some j, ps)
+      | none => .none
+  | [], _, i, path => by simp [matchChildren, firstDef3, nres]
+  | c :: cs, hg, i, path => by
+    simp only [stage3List, Bool.and_eq_true] at hg
+    have ih := nested_aligned3 c hg.1 i path
+    simp only [matchChildren, firstDef3]
+    cases hm : matchNested .aligned c i path with
+    | panic => rw [hm] at ih; cases hf : firstG c.ro3 path <;> simp [hf, nres] at ih
+    | some m rem =>
+      rw [hm] at ih
+      cases hf : firstG c.ro3 path with
+      | none => simp [hf, nres] at ih
+      | some ps => simp [hf, nres] at ih; simp [nres, ih]
+    | none =>
+      rw [hm] at ih
+      cases hf : firstG c.ro3 path with
+      | some ps => simp [hf, nres] at ih
+      | none => simp only; exact children_aligned3 cs hg.2 (i + 1) path
+end
+
+
+
+theorem prefixExps_mem (ns : List (List Char)) (B : List FSeg) : ∀ (inc j : Nat), j ≤ inc →
+    paramsOf (ns.take j) ++ B ∈ prefixExps ns B inc := by
+  intro inc
+  induction inc with
+  | zero => intro j hj; have : j = 0 := by omega
+            subst this; simp [prefixExps, paramsOf]
+  | succ i ih =>
+    intro j hj
+    simp only [prefixExps, List.mem_cons]
+    by_cases h : j = i + 1
+    · left; rw [h]
+    · right; exact ih j (by omega)
+
+theorem leafRO_sub (segs : Seg) (hin : segs.innerOptTuple = false) (hob : segs.optBlock = true) :
+    ∀ G ∈ leafRO segs.gen, G ∈ expandSpec segs.gen := by
+  intro G hG
+  obtain ⟨hrec, hA0⟩ := splitBlock_recompose segs.gen
+  have hB0 := block_gen_shape segs hin hob
+  obtain ⟨X, hX, rfl⟩ := mem_prefixAll _ _ _ hG
+  obtain ⟨j, _, rfl⟩ := mem_prefixExps _ _ _ X hX
+  rw [hrec, expandSpec_prefix _ _ hA0]
+  simp only [List.mem_map]
+  refine ⟨_, prefix_mem_expand _ _ hB0 j, ?_⟩
+  rw [← hrec]
+
+theorem leafRO_shape (segs : Seg) (hin : segs.innerOptTuple = false) (hob : segs.optBlock = true) :
+    ∀ G ∈ expandSpec segs.gen, ∃ G0 ∈ leafRO segs.gen, G.map shape = G0.map shape := by
+  intro G hG
+  obtain ⟨hrec, hA0⟩ := splitBlock_recompose segs.gen
+  have hB0 := block_gen_shape segs hin hob
+  rw [hrec, expandSpec_prefix _ _ hA0] at hG
+  simp only [List.mem_map] at hG
+  obtain ⟨X, hX, hGX⟩ := hG
+  obtain ⟨j, hj, hs⟩ := expand_shape _ _ hB0 X hX
+  refine ⟨(splitBlock segs.gen).1 ++ (paramsOf ((splitBlock segs.gen).2.1.take j) ++ (splitBlock segs.gen).2.2), ?_, ?_⟩
+  · exact mem_prefixAll_of_mem _ _ _ (prefixExps_mem _ _ _ j hj)
+  · rw [← hGX]
+    simp only [List.map_append] at hs ⊢
+    rw [hs]
+
+mutual
+theorem ro3_sub : ∀ (r : Route), r.stage3 = true → ∀ G ∈ r.ro3, G ∈ regRoutes r
+  | .mk segs children, hg, G, hG => by
+    simp only [Route.stage3, Bool.and_eq_true, Bool.not_eq_true', List.all_eq_true, decide_eq_true_eq] at hg
+    obtain ⟨⟨⟨hwf, hin⟩, hkind⟩, hch⟩ := hg
+    have ihl := ro3List_sub children hch
+    by_cases hce : children.isEmpty = true
+    · simp only [hce, if_true, Bool.and_eq_true] at hkind
+      simp only [Route.ro3, hce, if_true] at hG
+      simpa [regRoutes, Route.gen, hce] using leafRO_sub segs hin hkind.1 G hG
+    · simp only [hce, Bool.false_eq_true, if_false, Bool.or_eq_true, Bool.and_eq_true, Bool.not_eq_true',
+        decide_eq_true_eq] at hkind
+      obtain ⟨hcnt, hkind⟩ := hkind
+      by_cases hpure : isPureOpt segs.gen = true
+      · obtain ⟨n, hgen⟩ : ∃ n, segs.gen = [.opt n] := by
+          cases hgg : segs.gen with
+          | nil => simp [hgg, isPureOpt] at hpure
+          | cons f F =>
+            cases f <;> cases F <;> simp [hgg, isPureOpt] at hpure
+            exact ⟨_, rfl⟩
+        simp only [Route.ro3, hce, Bool.false_eq_true, if_false, hgen, List.mem_append, mem_prefixAll_iff] at hG
+        simp only [regRoutes, Route.gen, hce, Bool.false_eq_true, if_false, hgen, List.mem_flatMap,
+          mem_prefixAll_iff]
+        rcases hG with ⟨G', hG', rfl⟩ | hG
+        · obtain ⟨F, hF, hGF⟩ := List.mem_flatMap.1 (ihl G' hG')
+          exact ⟨[.opt n] ++ F, ⟨F, hF, rfl⟩, by simp [expandSpec_opt_cons]; left; exact hGF⟩
+        · obtain ⟨F, hF, hGF⟩ := List.mem_flatMap.1 (ihl G hG)
+          exact ⟨[.opt n] ++ F, ⟨F, hF, rfl⟩, by simp [expandSpec_opt_cons]; right; exact hGF⟩
+      · have hnp : isPureOpt segs.gen = false := by simpa using hpure
+        have hkind' : segs.optional = false ∧ noSplat segs.gen = true := by
+          rcases hkind with h | h
+          · exact h
+          · rw [h] at hnp; simp at hnp
+        obtain ⟨hopt, _⟩ := hkind'
+        have hro : (Route.mk segs children).ro3 = prefixAll segs.gen (ro3List children) := by
+          simp only [Route.ro3, hce, Bool.false_eq_true, if_false]
+          cases hgg : segs.gen with
+          | nil => rfl
+          | cons f F =>
+            cases f with
+            | opt n =>
+              have := gen_noOpt segs hopt (.opt n) (by simp [hgg])
+              simp [FSeg.isOpt] at this
+            | st s => rfl
+            | param s => rfl
+            | splat s => rfl
+        rw [hro, mem_prefixAll_iff] at hG
+        obtain ⟨G', hG', rfl⟩ := hG
+        simp only [regRoutes, Route.gen, hce, Bool.false_eq_true, if_false,
+          flatMap_prefixAll segs.gen (countOptF_of_noopt segs hopt), mem_prefixAll_iff]
+        exact ⟨G', ihl G' hG', rfl⟩
+theorem ro3List_sub : ∀ (cs : List Route), stage3List cs = true →
+    ∀ G ∈ ro3List cs, G ∈ (genList cs).flatMap expandSpec
+  | [], _, G, hG => by simp [ro3List] at hG
+  | c :: cs, hg, G, hG => by
+    simp only [stage3List, Bool.and_eq_true] at hg
+    simp only [ro3List, List.mem_append] at hG
+    simp only [genList, List.flatMap_append, List.mem_append]
+    rcases hG with hG | hG
+    · left; exact ro3_sub c hg.1 G hG
+    · right; exact ro3List_sub cs hg.2 G hG
+end
+
+mutual
+theorem ro3_shape : ∀ (r : Route), r.stage3 = true → ∀ G ∈ regRoutes r, ∃ G0 ∈ r.ro3, G.map shape = G0.map shape
+  | .mk segs children, hg, G, hG => by
+    simp only [Route.stage3, Bool.and_eq_true, Bool.not_eq_true', List.all_eq_true, decide_eq_true_eq] at hg
+    obtain ⟨⟨⟨hwf, hin⟩, hkind⟩, hch⟩ := hg
+    have ihl := ro3List_shape children hch
+    by_cases hce : children.isEmpty = true
+    · simp only [hce, if_true, Bool.and_eq_true] at hkind
+      simp only [Route.ro3, hce, if_true]
+      exact leafRO_shape segs hin hkind.1 G (by simpa [regRoutes, Route.gen, hce] using hG)
+    · simp only [hce, Bool.false_eq_true, if_false, Bool.or_eq_true, Bool.and_eq_true, Bool.not_eq_true',
+        decide_eq_true_eq] at hkind
+      obtain ⟨hcnt, hkind⟩ := hkind
+      by_cases hpure : isPureOpt segs.gen = true
+      · obtain ⟨n, hgen⟩ : ∃ n, segs.gen = [.opt n] := by
+          cases hgg : segs.gen with
+          | nil => simp [hgg, isPureOpt] at hpure
+          | cons f F =>
+            cases f <;> cases F <;> simp [hgg, isPureOpt] at hpure
+            exact ⟨_, rfl⟩
+        simp only [regRoutes, Route.gen, hce, Bool.false_eq_true, if_false, hgen, List.mem_flatMap,
+          mem_prefixAll_iff] at hG
+        obtain ⟨X, ⟨F, hF, rfl⟩, hGX⟩ := hG
+        simp [expandSpec_opt_cons] at hGX
+        simp only [Route.ro3, hce, Bool.false_eq_true, if_false, hgen, List.mem_append, mem_prefixAll_iff]
+        rcases hGX with ⟨G', hG', rfl⟩ | hGX
+        · obtain ⟨G0, hG0, hs⟩ := ihl G' (List.mem_flatMap.2 ⟨F, hF, hG'⟩)
+          exact ⟨[.param n] ++ G0, Or.inl ⟨G0, hG0, rfl⟩, by simp [hs]⟩
+        · obtain ⟨G0, hG0, hs⟩ := ihl G (List.mem_flatMap.2 ⟨F, hF, hGX⟩)
+          exact ⟨G0, Or.inr hG0, hs⟩
+      · have hnp : isPureOpt segs.gen = false := by simpa using hpure
+        have hkind' : segs.optional = false ∧ noSplat segs.gen = true := by
+          rcases hkind with h | h
+          · exact h
+          · rw [h] at hnp; simp at hnp
+        obtain ⟨hopt, _⟩ := hkind'
+        have hro : (Route.mk segs children).ro3 = prefixAll segs.gen (ro3List children) := by
+          simp only [Route.ro3, hce, Bool.false_eq_true, if_false]
+          cases hgg : segs.gen with
+          | nil => rfl
+          | cons f F =>
+            cases f with
+            | opt n =>
+              have := gen_noOpt segs hopt (.opt n) (by simp [hgg])
+              simp [FSeg.isOpt] at this
+            | st s => rfl
+            | param s => rfl
+            | splat s => rfl
+        simp only [regRoutes, Route.gen, hce, Bool.false_eq_true, if_false,
+          flatMap_prefixAll segs.gen (countOptF_of_noopt segs hopt), mem_prefixAll_iff] at hG
+        obtain ⟨G', hG', rfl⟩ := hG
+        obtain ⟨G0, hG0, hs⟩ := ihl G' hG'
+        rw [hro]
+        exact ⟨segs.gen ++ G0, mem_prefixAll_of_mem _ _ _ hG0, by simp [hs]⟩
+theorem ro3List_shape : ∀ (cs : List Route), stage3List cs = true →
+    ∀ G ∈ (genList cs).flatMap expandSpec, ∃ G0 ∈ ro3List cs, G.map shape = G0.map shape
+  | [], _, G, hG => by simp [genList] at hG
+  | c :: cs, hg, G, hG => by
+    simp only [stage3List, Bool.and_eq_true] at hg
+    simp only [genList, List.flatMap_append, List.mem_append] at hG
+    simp only [ro3List, List.mem_append]
+    rcases hG with hG | hG
+    · obtain ⟨G0, hG0, hs⟩ := ro3_shape c hg.1 G hG
+      exact ⟨G0, Or.inl hG0, hs⟩
+    · obtain ⟨G0, hG0, hs⟩ := ro3List_shape cs hg.2 G hG
+      exact ⟨G0, Or.inr hG0, hs⟩
+end
+
+
+
+/-! ## the table level when the router only tries some of the registered routes of a definition -/
+
+theorem shape_append (a G G0 : List FSeg) (h : G.map shape = G0.map shape) :
+    (a ++ G).map shape = (a ++ G0).map shape := by simp [h]
+
+/-- per definition: if none of the routes the router tries accepts, no registered route accepts strictly -/
+theorem def_none (E E' : Route → List (List FSeg)) (b : Option Path) (hb : baseOk b = true) (t : Route)
+    (hshape : ∀ G ∈ E' t, ∃ G0 ∈ E t, G.map shape = G0.map shape)
+    (hok' : ∀ X ∈ prefixAll (normBase b) (E' t), FlatOk X) (path : Path)
+    (h : firstG (prefixAll (normBase b) (E t)) path = none) :
+    anyStrict ((E' t).map (withBase b)) path = false := by
+  rw [anyStrict_base b hb]
+  cases hs : anyStrict (prefixAll (normBase b) (E' t)) path with
+  | false => rfl
+  | true =>
+    exfalso
+    obtain ⟨X, hX, hq⟩ := (anyStrict_mem _ _).1 hs
+    obtain ⟨G, hG, rfl⟩ := mem_prefixAll _ _ _ hX
+    cases hst : flatMatchStrict (normBase b ++ G) path with
+    | none => simp [hst] at hq
+    | some q =>
+      have hgm := strict_imp_gmatch _ (hok' _ hX).1 (hok' _ hX).2 path q hst
+      obtain ⟨G0, hG0, hs0⟩ := hshape G hG
+      have := gmatch_shape _ _ (shape_append (normBase b) G G0 hs0) path
+      rw [hgm] at this
+      cases hg0 : gmatch (normBase b ++ G0) path with
+      | none => simp [hg0] at this
+      | some q0 =>
+        obtain ⟨q', hq'⟩ := firstG_of_mem _ _ path q0 (mem_prefixAll_of_mem _ _ _ hG0) hg0
+        rw [h] at hq'; simp at hq'
+
+theorem def_some (E E' : Route → List (List FSeg)) (b : Option Path) (hb : baseOk b = true) (t : Route)
+    (hsub : ∀ G ∈ E t, G ∈ E' t) (hok' : ∀ X ∈ prefixAll (normBase b) (E' t), FlatOk X) (t' : Path) (q : Params)
+    (h : firstG (prefixAll (normBase b) (E t)) ('/' :: t') = some q) :
+    q ∈ lenientParams ((E' t).map (withBase b)) ('/' :: t') := by
+  have hok : ∀ X ∈ prefixAll (normBase b) (E t), FlatOk X := by
+    intro X hX
+    obtain ⟨G, hG, rfl⟩ := mem_prefixAll _ _ _ hX
+    exact hok' _ (mem_prefixAll_of_mem _ _ _ (hsub G hG))
+  have h1 := firstG_imp_lenient _ hok t' q h
+  rw [lenientParams_base b hb]
+  obtain ⟨X, hX, hq⟩ := (lenientParams_mem _ _ _).1 h1
+  obtain ⟨G, hG, rfl⟩ := mem_prefixAll _ _ _ hX
+  exact (lenientParams_mem _ _ _).2 ⟨_, mem_prefixAll_of_mem _ _ _ (hsub G hG), hq⟩
+
+theorem table_first3 (E E' : Route → List (List FSeg)) (b : Option Path) (hb : baseOk b = true) (t' : Path) :
+    ∀ (tops : List Route) (i0 i : Nat) (ps : Params),
+      (∀ t ∈ tops, ∀ G ∈ E t, G ∈ E' t) →
+      (∀ t ∈ tops, ∀ G ∈ E' t, ∃ G0 ∈ E t, G.map shape = G0.map shape) →
+      (∀ t ∈ tops, ∀ X ∈ prefixAll (normBase b) (E' t), FlatOk X) →
+      firstDefT (tops.map fun t => prefixAll (normBase b) (E t)) i0 ('/' :: t') = some (i, ps) →
+      i0 ≤ i ∧
+      (∃ t : Route, tops[i - i0]? = some t ∧ ps ∈ lenientParams ((E' t).map (withBase b)) ('/' :: t')) ∧
+      (∀ j, firstStrict (tops.map fun t => (E' t).map (withBase b)) ('/' :: t') i0 = some j → ¬ j < i) := by
+  intro tops
+  induction tops with
+  | nil => intro i0 i ps _ _ _ h; simp [firstDefT] at h
+  | cons c cs ih =>
+    intro i0 i ps hsub hshape hok h
+    simp only [List.map_cons, firstDefT] at h
+    cases hg : firstG (prefixAll (normBase b) (E c)) ('/' :: t') with
+    | some q =>
+      rw [hg] at h; simp at h
+      obtain ⟨rfl, rfl⟩ := h
+      refine ⟨Nat.le_refl _, ⟨c, by simp, ?_⟩, ?_⟩
+      · exact def_some E E' b hb c (hsub c (by simp)) (hok c (by simp)) t' q hg
+      · intro j hj
+        have := firstStrict_ge _ _ _ _ hj
+        omega
+    | none =>
+      rw [hg] at h; simp only at h
+      obtain ⟨h1, ⟨t, h2, h3⟩, h4⟩ := ih (i0 + 1) i ps (fun t ht => hsub t (by simp [ht]))
+        (fun t ht => hshape t (by simp [ht])) (fun t ht => hok t (by simp [ht])) h
+      refine ⟨by omega, ⟨t, ?_, h3⟩, ?_⟩
+      · have : i - i0 = (i - (i0 + 1)) + 1 := by omega
+        rw [this]
+        simpa using h2
+      · intro j hj
+        simp only [List.map_cons, firstStrict] at hj
+        rw [def_none E E' b hb c (hshape c (by simp)) (hok c (by simp)) _ hg] at hj
+        simp only [Bool.false_eq_true, if_false] at hj
+        exact h4 j hj
+
+theorem table_none3 (E E' : Route → List (List FSeg)) (b : Option Path) (hb : baseOk b = true) (path : Path) :
+    ∀ (tops : List Route) (i0 : Nat),
+      (∀ t ∈ tops, ∀ G ∈ E' t, ∃ G0 ∈ E t, G.map shape = G0.map shape) →
+      (∀ t ∈ tops, ∀ X ∈ prefixAll (normBase b) (E' t), FlatOk X) →
+      firstDefT (tops.map fun t => prefixAll (normBase b) (E t)) i0 path = none →
+      firstStrict (tops.map fun t => (E' t).map (withBase b)) path i0 = none := by
+  intro tops
+  induction tops with
+  | nil => intro i0 _ _ _; rfl
+  | cons c cs ih =>
+    intro i0 hshape hok h
+    simp only [List.map_cons, firstDefT] at h
+    cases hg : firstG (prefixAll (normBase b) (E c)) path with
+    | some q => rw [hg] at h; simp at h
+    | none =>
+      rw [hg] at h; simp only at h
+      simp only [List.map_cons, firstStrict, def_none E E' b hb c (hshape c (by simp)) (hok c (by simp)) _ hg,
+        Bool.false_eq_true, if_false]
+      exact ih (i0 + 1) (fun t ht => hshape t (by simp [ht])) (fun t ht => hok t (by simp [ht])) h
+
+theorem judge_of_table3 (E E' : Route → List (List FSeg)) (d : Defs) (hb : baseOk d.base = true) (t' : Path)
+    (hsub : ∀ t ∈ d.tops, ∀ G ∈ E t, G ∈ E' t)
+    (hshape : ∀ t ∈ d.tops, ∀ G ∈ E' t, ∃ G0 ∈ E t, G.map shape = G0.map shape)
+    (hok : ∀ t ∈ d.tops, ∀ X ∈ prefixAll (normBase d.base) (E' t), FlatOk X)
+    (hper : expandedPerDef d = d.tops.map fun t => (E' t).map (withBase d.base))
+    (got : Out NMatch)
+    (hr : mres got =
+      match firstDefT (d.tops.map fun t => prefixAll (normBase d.base) (E t)) 0 ('/' :: t') with
+      | some (i, ps) => .some (some i, ps)
+      | none => .none) :
+    judge d ('/' :: t') got = none := by
+  unfold judge
+  rw [hper]
+  cases hfd : firstDefT (d.tops.map fun t => prefixAll (normBase d.base) (E t)) 0 ('/' :: t') with
+  | none =>
+    rw [hfd] at hr
+    have hfs := table_none3 E E' d.base hb ('/' :: t') d.tops 0 hshape hok hfd
+    cases got with
+    | panic => simp [mres] at hr
+    | some m => simp [mres] at hr
+    | none => simp [hfs]
+  | some x =>
+    obtain ⟨i, ps⟩ := x
+    rw [hfd] at hr
+    obtain ⟨_, ⟨t, ht1, ht2⟩, hfirst⟩ := table_first3 E E' d.base hb t' d.tops 0 i ps hsub hshape hok hfd
+    cases got with
+    | panic => simp [mres] at hr
+    | none => simp [mres] at hr
+    | some m =>
+      simp only [mres, Out.some.injEq, Prod.mk.injEq] at hr
+      obtain ⟨hhead, hparams⟩ := hr
+      cases hch : m.chain with
+      | nil => rw [hch] at hhead; simp at hhead
+      | cons e rest =>
+        obtain ⟨i', x⟩ := e
+        rw [hch] at hhead
+        simp at hhead
+        subst hhead
+        simp only [Nat.sub_zero] at ht1
+        have ht1' : Option.map (fun t : Route => (E' t).map (withBase d.base)) d.tops[i']? =
+            some ((E' t).map (withBase d.base)) := by simp [ht1]
+        have hmem2 : m.params ∈ lenientParams ((E' t).map (withBase d.base)) ('/' :: t') := by
+          rw [hparams]; exact ht2
+        have hne' : lenientParams ((E' t).map (withBase d.base)) ('/' :: t') ≠ [] := by
+          intro hl; rw [hl] at hmem2; simp at hmem2
+        cases hsf : firstStrict (d.tops.map fun t => (E' t).map (withBase d.base)) ('/' :: t') 0 with
+        | none => simp [hch, ht1', hne', hmem2, hsf]
+        | some j =>
+          have := hfirst j hsf
+          simp [hch, ht1', hne', hmem2, hsf, this]
+
+mutual
+theorem flats_wfao3 : ∀ (r : Route), r.stage3 = true → ∀ F ∈ r.gen, (∀ f ∈ F, WfAO f) ∧ splatLast F = true
+  | .mk segs children, hg, F, hF => by
+    simp only [Route.stage3, Bool.and_eq_true, Bool.not_eq_true', List.all_eq_true, decide_eq_true_eq] at hg
+    obtain ⟨⟨⟨hwf, _⟩, hkind⟩, hch⟩ := hg
+    simp only [Route.gen] at hF
+    by_cases hce : children.isEmpty = true
+    · simp only [hce, if_true, List.mem_singleton, Bool.and_eq_true] at hF hkind
+      subst hF
+      exact ⟨hwf, hkind.2⟩
+    · simp only [hce, Bool.false_eq_true, if_false, Bool.or_eq_true, Bool.and_eq_true, Bool.not_eq_true',
+        decide_eq_true_eq] at hF hkind
+      obtain ⟨G, hG, rfl⟩ := mem_prefixAll _ _ _ hF
+      have hGok := flatsList_wfao3 children hch G hG
+      have hns : noSplat segs.gen = true := by
+        rcases hkind.2 with h | h
+        · exact h.2
+        · cases hgg : segs.gen with
+          | nil => rfl
+          | cons f F =>
+            cases f <;> cases F <;> simp [hgg, isPureOpt] at h
+            rfl
+      refine ⟨?_, splatLast_append _ _ hns hGok.2⟩
+      intro f hf
+      simp only [List.mem_append] at hf
+      rcases hf with hf | hf
+      · exact hwf f hf
+      · exact hGok.1 f hf
+theorem flatsList_wfao3 : ∀ (cs : List Route), stage3List cs = true →
+    ∀ F ∈ genList cs, (∀ f ∈ F, WfAO f) ∧ splatLast F = true
+  | [], _, F, hF => by simp [genList] at hF
+  | c :: cs, hg, F, hF => by
+    simp only [stage3List, Bool.and_eq_true] at hg
+    simp only [genList, List.mem_append] at hF
+    rcases hF with hF | hF
+    · exact flats_wfao3 c hg.1 F hF
+    · exact flatsList_wfao3 cs hg.2 F hF
+end
+
+theorem stage3List_mem : ∀ (cs : List Route) (t : Route), stage3List cs = true → t ∈ cs → t.stage3 = true := by
+  intro cs
+  induction cs with
+  | nil => intro t _ h; simp at h
+  | cons c cs ih =>
+    intro t hg h
+    simp only [stage3List, Bool.and_eq_true] at hg
+    simp only [List.mem_cons] at h
+    rcases h with rfl | h
+    · exact hg.1
+    · exact ih t hg.2 h
+
+theorem regRoutes_ok3 (b : Option Path) (hb : baseOk b = true) (t : Route) (ht : t.stage3 = true) :
+    ∀ X ∈ prefixAll (normBase b) (regRoutes t), FlatOk X := by
+  intro X hX
+  obtain ⟨G, hG, rfl⟩ := mem_prefixAll _ _ _ hX
+  simp only [regRoutes, List.mem_flatMap] at hG
+  obtain ⟨F, hF, hGF⟩ := hG
+  have hFok := flats_wfao3 t ht F hF
+  have hGok := expand_flatok F hFok.1 hFok.2 G hGF
+  refine ⟨?_, splatLast_append _ _ (normBase_noSplat b) hGok.2⟩
+  intro f hf
+  simp only [List.mem_append] at hf
+  rcases hf with hf | hf
+  · exact normBase_ok b hb f hf
+  · exact hGok.1 f hf
+
+mutual
+theorem stage3_of_classes : ∀ (r : Route), r.wf = true → r.hasOptParent = false → r.hasSplitOpt = false →
+    r.hasInnerOptTuple = false → r.stage3 = true
+  | .mk segs children, hw, h1, h2, h3 => by
+    simp only [Route.wf, Bool.and_eq_true, List.all_eq_true, decide_eq_true_eq] at hw
+    simp only [Route.hasOptParent, Bool.or_eq_false_iff, Bool.and_eq_false_iff, Bool.not_eq_false'] at h1
+    simp only [Route.hasSplitOpt, Bool.or_eq_false_iff] at h2
+    simp only [Route.hasInnerOptTuple, Bool.or_eq_false_iff] at h3
+    simp only [Route.stage3, Bool.and_eq_true, Bool.not_eq_true', List.all_eq_true, decide_eq_true_eq]
+    refine ⟨⟨⟨hw.1.1, h3.1⟩, ?_⟩, stage3List_of_classes children hw.2 h1.2 h2.2 h3.2⟩
+    by_cases hce : children.isEmpty = true
+    · simp only [hce, if_true, Bool.and_eq_true]
+      exact ⟨by simpa [hce] using h2.1, by simpa [hce] using hw.1.2⟩
+    · simp only [hce, Bool.false_eq_true, if_false, Bool.or_eq_true, Bool.and_eq_true, Bool.not_eq_true',
+        decide_eq_true_eq]
+      have hcnt : countOptF segs.gen ≤ 1 := by
+        have := h2.1; simp [hce] at this; omega
+      have hns : noSplat segs.gen = true := by simpa [hce] using hw.1.2
+      refine ⟨hcnt, ?_⟩
+      cases hopt : segs.optional with
+      | false => left; exact ⟨rfl, hns⟩
+      | true =>
+        right
+        have hall : segs.gen.any FSeg.mandatory = false := by
+          rcases h1.1 with (h | h) | h
+          · exact absurd h hce
+          · rw [hopt] at h; simp at h
+          · exact h
+        exact all_opt_single segs.gen hall hcnt (optional_has_opt segs hopt)
+theorem stage3List_of_classes : ∀ (cs : List Route), wfList cs = true → anyOptParent cs = false →
+    anySplitOpt cs = false → anyInnerOptTuple cs = false → stage3List cs = true
+  | [], _, _, _, _ => rfl
+  | c :: cs, hw, h1, h2, h3 => by
+    simp only [wfList, Bool.and_eq_true] at hw
+    simp only [anyOptParent, Bool.or_eq_false_iff] at h1
+    simp only [anySplitOpt, Bool.or_eq_false_iff] at h2
+    simp only [anyInnerOptTuple, Bool.or_eq_false_iff] at h3
+    simp only [stage3List, Bool.and_eq_true]
+    exact ⟨stage3_of_classes c hw.1 h1.1 h2.1 h3.1, stage3List_of_classes cs hw.2 h1.2 h2.2 h3.2⟩
+end
+
+theorem route_aligned3 (d : Defs) (hb : baseOk d.base = true) (hs : stage3List d.tops = true) (path : Path)
+    (hp : startsSlash path = true) :
+    mres (matchRoute .aligned d path) =
+      match firstDefT (d.tops.map fun t => prefixAll (normBase d.base) t.ro3) 0 path with
+      | some (i, ps) => .some (some i, ps)
+      | none => .none := by
+  unfold matchRoute
+  rw [firstDefT_gen Route.ro3 firstDef3 (fun _ _ => rfl) (fun _ _ _ _ => rfl) d.base hb path hp]
+  cases stripBase .aligned d.base path with
+  | none => simp [mres]
+  | some p =>
+    have hc := children_aligned3 d.tops hs 0 p
+    simp only
+    cases hm : matchChildren .aligned d.tops 0 p with
+    | panic => rw [hm] at hc; cases hf : firstDef3 d.tops 0 p <;> simp [hf, nres] at hc
+    | none =>
+      rw [hm] at hc
+      cases hf : firstDef3 d.tops 0 p with
+      | some x => simp [hf, nres] at hc
+      | none => simp [mres]
+    | some m rem =>
+      rw [hm] at hc
+      have hcomp := children_rem_complete .aligned d.tops 0 p m rem hm
+      cases hf : firstDef3 d.tops 0 p with
+      | none => simp [hf, nres] at hc
+      | some x =>
+        obtain ⟨j, ps⟩ := x
+        simp [hf, nres] at hc
+        simp [hcomp, mres, hc]
+
+/-- **match ⇔ flat with optional params, stage 3**: as stage 2, and a leaf route may carry ANY number of
+optional params as long as they form one block of direct fields (`/:a?/:b?`, `/x/:a?/:b?/y`, …): the class
+`optional-backoff-order` shrinks to its exact form `anySplitOpt` (optionals separated by a mandatory segment,
+or two optionals in a route with children). -/
+theorem C14_match_iff_flat_optional_blocks (d : Defs) (path : Path) (hw : d.wf = true)
+    (hp : startsSlash path = true) (h1 : anyOptParent d.tops = false) (h2 : anySplitOpt d.tops = false)
+    (h3 : anyInnerOptTuple d.tops = false) (hal : SegmentAligned d path) : Holds d path := by
+  simp only [Defs.wf, Bool.and_eq_true, Bool.not_eq_true'] at hw
+  obtain ⟨⟨hb, hwl⟩, _⟩ := hw
+  have hs := stage3List_of_classes d.tops hwl h1 h2 h3
+  unfold Holds
+  rw [hal]
+  cases path with
+  | nil => simp [startsSlash] at hp
+  | cons c t' =>
+    have hc : c = '/' := by simpa [startsSlash] using hp
+    subst hc
+    exact judge_of_table3 Route.ro3 regRoutes d hb t'
+      (fun t ht => ro3_sub t (stage3List_mem d.tops t hs ht))
+      (fun t ht => ro3_shape t (stage3List_mem d.tops t hs ht))
+      (fun t ht => regRoutes_ok3 d.base hb t (stage3List_mem d.tops t hs ht))
+      (expandedPerDef_eq1 d) _ (route_aligned3 d hb hs _ hp)
 
 /-! ## non-vacuity: every hypothesis above is satisfiable (and the conclusions are not trivially empty) -/
 
@@ -6076,5 +8906,42 @@ example : noSlashSegList optLeaves.tops = true := by decide
 example : anyOptWithChildren optParent.tops = true ∧ anyMultiOpt optOrder.tops = true ∧
     anyInnerOptTuple optInner.tops = true ∧
     (noSlashSegList slashParent.tops = false ∧ ¬ SegmentAligned slashParent ['/', 'a']) := by decide
+
+
+-- C14_match_iff_flat_optional: hypotheses satisfiable on a table with a parent that is one optional param
+-- (`/:lang?` → `/a` → `/:id`, and a sibling), the fallback is exercised (optional taken / children
+-- re-matched against the whole path), and the class predicate is exact: with a mandatory segment next to
+-- the optional the table is in the class
+def langDefs : Defs :=
+  ⟨none, [.mk (.opt ['l']) [.mk (.st ['a']) [.mk (.param ['i']) []], .mk (.tup [.st ['b'], .opt ['o']]) []]]⟩
+
+example : langDefs.wf = true ∧ anyOptParent langDefs.tops = false ∧ anyOptWithChildren langDefs.tops = true ∧
+    anyMultiOpt langDefs.tops = false ∧ anyInnerOptTuple langDefs.tops = false ∧
+    noSlashSegList langDefs.tops = true ∧
+    matchRoute .cur langDefs ['/', 'e', '/', 'a', '/', 'x'] =
+      .some ⟨[(0, ['/', 'e']), (0, ['/', 'a']), (0, ['/', 'x'])], [(['l'], ['e']), (['i'], ['x'])]⟩ ∧
+    matchRoute .cur langDefs ['/', 'a', '/', 'x'] =
+      .some ⟨[(0, ['/', 'a']), (0, ['/', 'a']), (0, ['/', 'x'])], [(['i'], ['x'])]⟩ ∧
+    matchRoute .cur langDefs ['/', 'b'] = .some ⟨[(0, ['/', 'b']), (1, ['/', 'b'])], []⟩ ∧
+    anyOptParent optParent.tops = true := by decide
+
+
+-- C14_match_iff_flat_optional_blocks: hypotheses satisfiable on leaves with two and three optionals in one block,
+-- the back-off is exercised (all taken / some backed off / a non-prefix expansion accepted through its prefix twin),
+-- and the class predicate is exact: optionals separated by a mandatory segment are in the class
+def blockDefs : Defs :=
+  ⟨none, [.mk (.tup [.st ['x'], .opt ['a'], .tup [.opt ['b']], .st ['y']]) [],
+          .mk (.st ['z']) [.mk (.tup [.opt ['c'], .opt ['d'], .opt ['e']]) []]]⟩
+
+example : blockDefs.wf = true ∧ anyOptParent blockDefs.tops = false ∧ anySplitOpt blockDefs.tops = false ∧
+    anyMultiOpt blockDefs.tops = true ∧ anyInnerOptTuple blockDefs.tops = false ∧
+    matchRoute .cur blockDefs ['/', 'x', '/', 'p', '/', 'q', '/', 'y'] =
+      .some ⟨[(0, ['/', 'x', '/', 'p', '/', 'q', '/', 'y'])], [(['a'], ['p']), (['b'], ['q'])]⟩ ∧
+    matchRoute .cur blockDefs ['/', 'x', '/', 'p', '/', 'y'] =
+      .some ⟨[(0, ['/', 'x', '/', 'p', '/', 'y'])], [(['a'], ['p'])]⟩ ∧
+    matchRoute .cur blockDefs ['/', 'x', '/', 'y'] = .some ⟨[(0, ['/', 'x', '/', 'y'])], []⟩ ∧
+    matchRoute .cur blockDefs ['/', 'z', '/', 'u', '/', 'v'] =
+      .some ⟨[(1, ['/', 'z']), (0, ['/', 'u', '/', 'v'])], [(['c'], ['u']), (['d'], ['v'])]⟩ ∧
+    anySplitOpt optOrder.tops = true := by decide
 
 end Leptos.Router
